@@ -1,7 +1,8 @@
 (** C17 — proofs about Model/Guards.v: the per-request decision of the layer below the cache,
-    an invariant of the response cache ("no entry holds guarded content, and no key belongs to a
-    path that can produce guarded content"), and their combination over all histories. *)
-From KV Require Import Guards CacheProofs.
+    an invariant of the response cache of Model/CacheX.v ("no stored variant holds guarded content": what
+    is stored was admitted, and an answer with guarded content has server preference None), and their
+    combination over all histories; "the answer is the host's 404" below and above the cache. *)
+From KV Require Import Guards CacheProofs CacheXProofs PresentLineProofs.
 From KV Require PathSan PresentLine.
 From Coq Require Import ZifyBool ZifyNat ZifyN.
 Open Scope N_scope.
@@ -48,19 +49,6 @@ Qed.
 (** a byte range of a body that does not contain the secret does not contain it either *)
 Lemma contains_sub_slice p lo hi s : contains_sub p (slice lo hi s) = true -> contains_sub p s = true.
 Proof. unfold slice. intros H. apply contains_sub_firstn in H. apply contains_sub_skipn in H. exact H. Qed.
-
-(** ---------------------------------------------------------------------------
-    the body that [resolve_present] keeps is a suffix of the file *)
-Lemma present_parse_body_suffix c p :
-  PresentLine.present_parse c = Ok (Some p) -> exists k, PresentLine.p_body p = skipn k c.
-Proof.
-  unfold PresentLine.present_parse, PresentLine.present_parse_with.
-  destruct (PresentLine.pe_new PresentLine.data_start_fixed c) as [[[exts ds]|]|e|]; try discriminate.
-  unfold PresentLine.split_off. destruct (Nat.ltb (length c) ds); cbn [obind]; [discriminate|].
-  destruct (PresentLine.iter_all (S (length exts)) exts 0) as [pas|e|]; cbn [obind]; try discriminate.
-  match goal with |- obind ?o _ = _ -> _ => destruct o as [es|e|] end; cbn [obind]; try discriminate.
-  intros H. inversion H; subst. cbn [PresentLine.p_body]. exists ds. reflexivity.
-Qed.
 
 (** ---------------------------------------------------------------------------
     percent-encoded spellings *)
@@ -127,34 +115,35 @@ Qed.
 (** ---------------------------------------------------------------------------
     The Present stage: what each directive does to "the body carries no secret" and to
     "the server preference is locked at None". *)
-Section Decision.
-  Variable fs : bytes -> option bytes.
+Lemma line_of_suffix c p : line_of c = Some p -> exists k, PresentLine.p_body p = skipn k c.
+Proof.
+  unfold line_of. destruct (PresentLine.present_parse c) as [[p'|]|e|] eqn:E; try discriminate.
+  intros H; inversion H; subst. eapply present_parse_body_suffix. exact E.
+Qed.
+Lemma entries_of_line c : entries_of c = match line_of c with Some p => PresentLine.p_entries p | None => [] end.
+Proof. unfold entries_of, line_of. destruct (PresentLine.present_parse c) as [[p|]|e|]; reflexivity. Qed.
+Lemma line_of_parse c : PresentLine.present_parse c = Ok (line_of c).
+Proof.
+  unfold line_of. destruct (present_parse_total c) as (r & E & _). rewrite E. reflexivity.
+Qed.
+
+(** what a directive does to the server cache preference and its lock (no secret involved) *)
+Section Shape.
+  Variable fix_errline : bool.
   Variable errpage : N -> bytes.
-  Variable secret : bytes.
-  Hypothesis Hfs : forall t c, fs t = Some c -> contains_sub secret c = true -> guarded t c = true.
-  Hypothesis Herr_clean : forall s, contains_sub secret (errpage s) = false.
-  Hypothesis Herr_plain : forall s, PresentLine.present_parse (errpage s) = Ok None.
-
-  Notation bad := (contains_sub secret).
-  Definition nb (st : pst) : Prop := bad (ps_body st) = false.
+  Variable tmpl : list bytes -> bytes -> bytes.
   Definition lk (st : pst) : Prop := ps_locked st = true /\ ps_spref st = SP_NONE.
+  Notation stepv := (step true fix_errline errpage tmpl).
+  Notation hidev := (do_hide fix_errline errpage tmpl).
+  Notation allowv := (do_allow fix_errline errpage).
 
-  Lemma bad_nil : bad [] = false.
-  Proof.
-    destruct (bad []) eqn:E; [|reflexivity].
-    unfold contains_sub in E. cbn [find_sub] in E.
-    destruct secret as [|x s] eqn:Es; [|cbn in E; discriminate].
-    specialize (Herr_clean 0). unfold contains_sub in Herr_clean.
-    destruct (errpage 0); cbn in Herr_clean; discriminate.
-  Qed.
-
-  Variable fix_ext : bool.
-  Notation stepv := (step true errpage).
-
-  Lemma step_cases addr st e :
-    (fst e = N_HIDE /\ stepv addr st e = do_hide errpage st) \/
-    (fst e = N_ALLOW /\ stepv addr st e = do_allow errpage addr (snd e) st) \/
-    (fst e <> N_HIDE /\ fst e <> N_ALLOW /\ ps_body (stepv addr st e) = ps_body st /\
+  Lemma step_shape addr st e :
+    (fst e = N_HIDE /\ stepv addr st e = hidev st) \/
+    (fst e = N_ALLOW /\ stepv addr st e = allowv addr (snd e) st) \/
+    (fst e <> N_HIDE /\ fst e <> N_ALLOW /\
+     (ps_body (stepv addr st e) = ps_body st \/
+      exists args, fst e = N_TMPL /\ ps_body (stepv addr st e) = tmpl args (ps_body st)) /\
+     ps_status (stepv addr st e) = ps_status st /\
      ps_locked (stepv addr st e) = ps_locked st /\
      (ps_locked st = true -> ps_spref (stepv addr st e) = ps_spref st)).
   Proof.
@@ -166,28 +155,129 @@ Section Decision.
     assert (name <> N_ALLOW) by (intros ->; rewrite beq_refl in E2; discriminate).
     split; [assumption|]. split; [assumption|].
     destruct (beq name N_CACHE).
-    - unfold do_cache. destruct (cache_parse args None None) as [c s]. cbn [ps_body ps_locked ps_spref].
-      split; [reflexivity|]. split; [reflexivity|]. intros L. rewrite L. destruct s; reflexivity.
-    - destruct (beq name N_DOWNLOAD); cbn; auto.
+    - unfold do_cache. destruct (cache_parse args None None) as [c s]. cbn [ps_body ps_locked ps_spref ps_status].
+      split; [auto|]. split; [reflexivity|]. split; [reflexivity|]. intros L. rewrite L. destruct s; reflexivity.
+    - destruct (beq name N_DOWNLOAD); [cbn; auto|].
+      destruct (beq name N_TMPL) eqn:E5; [|auto].
+      unfold do_tmpl. cbn [ps_body ps_locked ps_spref ps_status]. apply beq_eq in E5.
+      split; [right; exists args; auto|]. auto.
   Qed.
 
-  Lemma nb_hide st : nb (do_hide errpage st).
-  Proof. unfold nb, do_hide, to_error. cbn [ps_body]. apply Herr_clean. Qed.
-
   Lemma allow_body addr args st :
-    ps_body (do_allow errpage addr args st) =
-      if existsb (arg_matches addr) args then ps_body st else errpage 404.
+    ps_body (allowv addr args st) =
+      if existsb (arg_matches addr) args then ps_body st else error_body_allow fix_errline errpage 404.
   Proof. unfold do_allow. destruct (existsb (arg_matches addr) args); reflexivity. Qed.
 
-  Lemma lk_allow addr args st : lk (do_allow errpage addr args st).
+  Lemma lk_allow addr args st : lk (allowv addr args st).
   Proof. unfold lk, do_allow. destruct (existsb (arg_matches addr) args); cbn; auto. Qed.
+
+  (** [allow-ips] on the line and no [hide]: the server preference ends as None, whatever
+      [cache] directives stand before or after it *)
+  Lemma fold_locked addr es st :
+    (lk st \/ has_name N_ALLOW es = true) -> has_name N_HIDE es = false ->
+    lk (fold_left (stepv addr) es st).
+  Proof.
+    revert st; induction es as [|e es IH]; intros st H Hh; cbn [fold_left has_name existsb] in *.
+    - destruct H as [H|H]; [exact H|discriminate].
+    - unfold has_name in IH. apply orb_false_iff in Hh as [Hh1 Hh2].
+      apply IH; [|exact Hh2].
+      destruct (step_shape addr st e) as [[E _]|[[E ->]|[_ [E [_ [_ [HL HS]]]]]]].
+      + rewrite E, beq_refl in Hh1. discriminate.
+      + left. apply lk_allow.
+      + destruct H as [[L S]|H].
+        * left. split; [congruence|]. rewrite HS by exact L. exact S.
+        * apply orb_true_iff in H as [H|H]; [apply beq_eq in H; contradiction|]. right. exact H.
+  Qed.
+
+  (** the server preference of the answers for an allow-ips file: None, for every address, whatever
+      [cache] directives the line carries *)
+  Lemma allow_ips_spref_none cors fs r ov t c :
+    served_file (rq_path r) = Ok (Some t) -> fs t = Some c ->
+    is_hidden t c = false -> is_allow_ips c = true -> get_or_head (rq_method r) = true ->
+    (cors && is_cors_fail ov) = false ->
+    f_spref (layer_b true true fix_errline cors fs errpage tmpl r ov true) = SP_NONE.
+  Proof.
+    intros Es Ef Hh Ha Em Ec.
+    pose proof (private_hit_served _ _ Es) as Hp.
+    unfold is_hidden in Hh. apply orb_false_iff in Hh as [Hh1 Hh2]. rewrite <- Hp in Hh1.
+    unfold layer_b, base. cbn [negb]. rewrite Es, Ec, Em, Ef. cbn [f_spref fat_of].
+    unfold present. cbn [ps_body file_pst]. rewrite Hh1.
+    unfold is_allow_ips in Ha. rewrite entries_of_line in Ha, Hh2.
+    destruct (line_of c) as [p|]; [|cbn in Ha; discriminate].
+    cbn [ps_status ps_headers ps_spref ps_cpref ps_locked file_pst].
+    pose proof (fold_locked (rq_addr r) (PresentLine.p_entries p)
+                  (mkP 200 [] (PresentLine.p_body p) SP_FULL CFull false) (or_intror Ha) Hh2) as [_ HS].
+    exact HS.
+  Qed.
+End Shape.
+
+Section Decision.
+  Variable fix_errline cors : bool.
+  Variable fs : bytes -> option bytes.
+  Variable errpage : N -> bytes.
+  Variable tmpl : list bytes -> bytes -> bytes.
+  Variable secret : bytes.
+  Hypothesis Hfs : forall t c, fs t = Some c -> contains_sub secret c = true -> guarded t c = true.
+  Hypothesis Herr_clean : forall s, contains_sub secret (errpage s) = false.
+  Hypothesis Htmpl : forall args b, contains_sub secret (tmpl args b) = true -> contains_sub secret b = true.
+  Hypothesis Hcors : cors = true -> contains_sub secret (ps_body cors_pst) = false.
+
+  Notation bad := (contains_sub secret).
+  Definition nb (st : pst) : Prop := bad (ps_body st) = false.
+  Lemma bad_nil : bad [] = false.
+  Proof.
+    destruct (bad []) eqn:E; [|reflexivity].
+    unfold contains_sub in E. cbn [find_sub] in E.
+    destruct secret as [|x s] eqn:Es; [|cbn in E; discriminate].
+    specialize (Herr_clean 0). unfold contains_sub in Herr_clean.
+    destruct (errpage 0); cbn in Herr_clean; discriminate.
+  Qed.
+
+  Lemma clean_line c p : bad c = false -> line_of c = Some p -> bad (PresentLine.p_body p) = false.
+  Proof.
+    intros Hc Hl. destruct (line_of_suffix c p Hl) as [k Hk]. rewrite Hk.
+    destruct (bad (skipn k c)) eqn:E; [|reflexivity]. apply contains_sub_skipn in E. congruence.
+  Qed.
+  Lemma tmpl_clean args b : bad b = false -> bad (tmpl args b) = false.
+  Proof. intros H. destruct (bad (tmpl args b)) eqn:E; [|reflexivity]. apply Htmpl in E. congruence. Qed.
+
+  Lemma err_allow_clean code : bad (error_body_allow fix_errline errpage code) = false.
+  Proof.
+    unfold error_body_allow. destruct (line_of (errpage code)) as [p|] eqn:L; [|apply Herr_clean].
+    destruct fix_errline; [|apply Herr_clean]. eapply clean_line; [apply Herr_clean | exact L].
+  Qed.
+  Lemma err_hide_clean code : bad (error_body_hide fix_errline errpage tmpl code) = false.
+  Proof.
+    unfold error_body_hide. destruct (line_of (errpage code)) as [p|] eqn:L; [|apply Herr_clean].
+    pose proof (clean_line _ _ (Herr_clean code) L) as Hp.
+    destruct (first_tmpl (PresentLine.p_entries p)); [apply tmpl_clean; exact Hp|].
+    destruct fix_errline; [exact Hp | apply Herr_clean].
+  Qed.
+
+  Notation stepv := (step true fix_errline errpage tmpl).
+  Notation hidev := (do_hide fix_errline errpage tmpl).
+  Notation allowv := (do_allow fix_errline errpage).
+
+  Lemma step_cases addr st e :
+    (fst e = N_HIDE /\ stepv addr st e = hidev st) \/
+    (fst e = N_ALLOW /\ stepv addr st e = allowv addr (snd e) st) \/
+    (fst e <> N_HIDE /\ fst e <> N_ALLOW /\
+     (bad (ps_body st) = false -> bad (ps_body (stepv addr st e)) = false)).
+  Proof.
+    destruct (step_shape fix_errline errpage tmpl addr st e) as [H|[H|(H1 & H2 & Hb & _)]]; [auto | auto |].
+    right; right. split; [exact H1|]. split; [exact H2|].
+    intros Hc. destruct Hb as [-> | (args & _ & ->)]; [exact Hc | apply tmpl_clean, Hc].
+  Qed.
+
+  Lemma nb_hide st : nb (hidev st).
+  Proof. unfold nb, do_hide, to_error. cbn [ps_body]. apply err_hide_clean. Qed.
 
   Lemma nb_step addr st e : nb st -> nb (stepv addr st e).
   Proof.
-    intros H. destruct (step_cases addr st e) as [[_ ->]|[[_ ->]|[_ [_ [Hb _]]]]].
+    intros H. destruct (step_cases addr st e) as [[_ ->]|[[_ ->]|[_ [_ Hb]]]].
     - apply nb_hide.
-    - unfold nb. rewrite allow_body. destruct (existsb (arg_matches addr) (snd e)); [exact H|apply Herr_clean].
-    - unfold nb. rewrite Hb. exact H.
+    - unfold nb. rewrite allow_body. destruct (existsb (arg_matches addr) (snd e)); [exact H|apply err_allow_clean].
+    - apply Hb, H.
   Qed.
 
   Lemma nb_fold addr es st : nb st -> nb (fold_left (stepv addr) es st).
@@ -213,104 +303,81 @@ Section Decision.
     - apply nb_fold. destruct (beq (fst e) N_ALLOW) eqn:E; [|discriminate]. apply beq_eq in E.
       destruct (step_cases addr st e) as [[E' _]|[[_ ->]|[_ [E' _]]]].
       + rewrite E in E'. discriminate.
-      + unfold nb. rewrite allow_body, H. apply Herr_clean.
+      + unfold nb. rewrite allow_body, H. apply err_allow_clean.
       + contradiction.
     - apply IH, H.
   Qed.
 
-  (** [allow-ips] on the line and no [hide]: the server preference ends as None, whatever
-      [cache] directives stand before or after it *)
-  Lemma fold_locked addr es st :
-    (lk st \/ has_name N_ALLOW es = true) -> has_name N_HIDE es = false ->
-    lk (fold_left (stepv addr) es st).
-  Proof.
-    revert st; induction es as [|e es IH]; intros st H Hh; cbn [fold_left has_name existsb] in *.
-    - destruct H as [H|H]; [exact H|discriminate].
-    - unfold has_name in IH. apply orb_false_iff in Hh as [Hh1 Hh2].
-      apply IH; [|exact Hh2].
-      destruct (step_cases addr st e) as [[E _]|[[E ->]|[_ [E [_ [HL HS]]]]]].
-      + rewrite E, beq_refl in Hh1. discriminate.
-      + left. apply lk_allow.
-      + destruct H as [[L S]|H].
-        * left. split; [congruence|]. rewrite HS by exact L. exact S.
-        * apply orb_true_iff in H as [H|H]; [apply beq_eq in H; contradiction|]. right. exact H.
-  Qed.
-
   (** ---- the layer below the cache, repaired code ---- *)
-  Notation LB := (layer_b true true fs errpage).
-  Notation presentv := (present true true errpage).
+  Notation LB := (layer_b true true fix_errline cors fs errpage tmpl).
+  Notation presentv := (present true true fix_errline errpage tmpl).
+  Notation basev := (base cors fs errpage).
 
-  Lemma present_error r code sp :
-    private_hit true (rq_path r) = false ->
-    presentv r (err_pst errpage code sp) = Ok (err_pst errpage code sp).
-  Proof. intros Hp. unfold present. cbn [ps_body err_pst]. rewrite Herr_plain, Hp. reflexivity. Qed.
-
-  Lemma present_error_nb r code sp st :
-    presentv r (err_pst errpage code sp) = Ok st -> nb st.
+  (** a response without the secret stays without it *)
+  Lemma present_nb r st : nb st -> nb (presentv r st).
   Proof.
-    unfold present. cbn [ps_body err_pst]. rewrite Herr_plain. cbn [fold_left].
-    destruct (private_hit true (rq_path r)); intros H; inversion H; subst.
-    - apply nb_hide.
-    - unfold nb. cbn [ps_body]. apply Herr_clean.
+    intros H. unfold present.
+    destruct (line_of (ps_body st)) as [p|] eqn:L.
+    - apply nb_fold. destruct (private_hit true (rq_path r)); [apply nb_hide|].
+      unfold nb. cbn [ps_body]. eapply clean_line; [exact H | exact L].
+    - apply nb_fold. destruct (private_hit true (rq_path r)); [apply nb_hide | exact H].
   Qed.
 
   Lemma fat_of_body st : f_body (fat_of st) = ps_body st.
+  Proof. reflexivity. Qed.
+  Lemma fat_of_spref st : f_spref (fat_of st) = ps_spref st.
   Proof. reflexivity. Qed.
 
   Lemma panic_fat_clean : bad (f_body panic_fat) = false.
   Proof. cbn [f_body panic_fat]. apply bad_nil. Qed.
 
-  (** what [layer_b] does for a readable file *)
-  Lemma layer_b_file r t c :
-    served_file (rq_path r) = Ok (Some t) -> get_or_head (rq_method r) = true -> fs t = Some c ->
-    LB r true = match presentv r (file_pst c) with Ok st => fat_of st | _ => panic_fat end.
-  Proof. intros Hs Hm Hf. unfold layer_b, base. cbn [negb]. rewrite Hs, Hm, Hf. reflexivity. Qed.
+  Lemma err_pst_nb code sp : nb (err_pst errpage code sp).
+  Proof. unfold nb. cbn [ps_body err_pst]. apply Herr_clean. Qed.
+  Lemma cors_pst_nb : cors = true -> nb cors_pst.
+  Proof. exact Hcors. Qed.
 
-  (** every other case: an error page goes through the Present stage *)
-  Lemma layer_b_not_file r ok :
-    (ok = false \/ served_file (rq_path r) = Ok None \/ get_or_head (rq_method r) = false \/
-     (exists t, served_file (rq_path r) = Ok (Some t) /\ fs t = None) \/
-     served_file (rq_path r) = Panic) ->
-    bad (f_body (LB r ok)) = false.
+  (** what [base] can be: a response without the secret, or the file itself *)
+  Lemma base_cases r ov ok :
+    basev r ov ok = Panic \/ (exists st, basev r ov ok = Ok st /\ nb st) \/
+    (exists t c, ok = true /\ (cors && is_cors_fail ov) = false /\ served_file (rq_path r) = Ok (Some t) /\
+                 get_or_head (rq_method r) = true /\ fs t = Some c /\ basev r ov ok = Ok (file_pst c)).
   Proof.
-    intros H. unfold layer_b, base.
-    destruct ok; cbn [negb].
-    2:{ cbn [obind]. destruct (presentv r _) eqn:E; try apply panic_fat_clean.
-        rewrite fat_of_body. eapply present_error_nb. exact E. }
-    destruct (served_file (rq_path r)) as [[t|]|e|] eqn:Es; cbn [obind]; try apply panic_fat_clean.
-    - destruct (get_or_head (rq_method r)) eqn:Em.
+    unfold base. destruct ok; cbn [negb].
+    2:{ right; left. eexists. split; [reflexivity | apply err_pst_nb]. }
+    destruct (served_file (rq_path r)) as [[t|]|e|] eqn:Es.
+    - destruct (cors && is_cors_fail ov) eqn:Ec.
+      { right; left. exists cors_pst. split; [reflexivity|]. apply cors_pst_nb.
+        apply andb_true_iff in Ec as [Ec _]. exact Ec. }
+      destruct (get_or_head (rq_method r)) eqn:Em.
       + destruct (fs t) as [c|] eqn:Ef.
-        * exfalso. destruct H as [H|[H|[H|[[t' [H1 H2]]|H]]]]; try discriminate. inversion H1; subst. congruence.
-        * cbn [obind]. destruct (presentv r _) eqn:E; try apply panic_fat_clean.
-          rewrite fat_of_body. eapply present_error_nb. exact E.
-      + cbn [obind]. destruct (presentv r _) eqn:E; try apply panic_fat_clean.
-        rewrite fat_of_body. eapply present_error_nb. exact E.
-    - destruct (presentv r _) eqn:E; try apply panic_fat_clean.
-      rewrite fat_of_body. eapply present_error_nb. exact E.
+        * right; right. exists t, c. repeat split; auto.
+        * right; left. eexists. split; [reflexivity | apply err_pst_nb].
+      + right; left. eexists. split; [reflexivity | apply err_pst_nb].
+    - destruct (cors && is_cors_fail ov) eqn:Ec.
+      + right; left. exists cors_pst. split; [reflexivity|]. apply cors_pst_nb.
+        apply andb_true_iff in Ec as [Ec _]. exact Ec.
+      + right; left. eexists. split; [reflexivity | apply err_pst_nb].
+    - exfalso. unfold served_file in Es. destruct (PathSan.decoded_for_use (rq_path r)) as [d|]; [|discriminate].
+      destruct (PathSan.parse_uri d); discriminate.
+    - left. reflexivity.
   Qed.
 
-  (** the per-request decision *)
-  Lemma decision r ok : bad (f_body (LB r ok)) = true -> permitted fs r.
+  (** the per-request decision: an answer with the secret is an answer for a permitted request, and its
+      server cache preference is None *)
+  Lemma decision_strong r ov ok :
+    bad (f_body (LB r ov ok)) = true -> permitted fs r /\ f_spref (LB r ov ok) = SP_NONE.
   Proof.
-    intros Hb.
-    destruct ok.
-    2:{ rewrite layer_b_not_file in Hb by auto. discriminate. }
-    destruct (served_file (rq_path r)) as [[t|]|e|] eqn:Es.
-    2:{ rewrite layer_b_not_file in Hb by auto. discriminate. }
-    2:{ unfold served_file in Es. destruct (PathSan.decoded_for_use (rq_path r)) as [d|]; [|discriminate].
-        destruct (PathSan.parse_uri d); discriminate. }
-    2:{ rewrite layer_b_not_file in Hb by auto. discriminate. }
-    destruct (get_or_head (rq_method r)) eqn:Em.
-    2:{ rewrite layer_b_not_file in Hb by auto. discriminate. }
-    destruct (fs t) as [c|] eqn:Ef.
-    2:{ rewrite layer_b_not_file in Hb by (right; right; right; left; exists t; auto). discriminate. }
-    rewrite (layer_b_file r t c Es Em Ef) in Hb.
+    intros Hb. unfold layer_b in *.
+    destruct (base_cases r ov ok) as [E | [(st & E & Hn) | (t & c & Hok & Hc & Es & Em & Ef & E)]]; rewrite E in *.
+    { rewrite panic_fat_clean in Hb. discriminate. }
+    { rewrite fat_of_body in Hb. pose proof (present_nb r st Hn) as Hn'. unfold nb in Hn'. congruence. }
+    rewrite fat_of_body in Hb. rewrite fat_of_spref.
     pose proof (private_hit_served _ _ Es) as Hp.
-    unfold present in Hb. cbn [ps_body file_pst] in Hb.
-    destruct (PresentLine.present_parse c) as [[p|]|e|] eqn:Ep; try (rewrite panic_fat_clean in Hb; discriminate).
+    unfold present in *. cbn [ps_body file_pst] in *.
+    pose proof (entries_of_line c) as Hent.
+    destruct (line_of c) as [p|] eqn:Ep.
     - (* a line was parsed *)
-      cbn [ps_status ps_headers ps_spref ps_cpref ps_locked file_pst] in Hb. rewrite fat_of_body in Hb.
-      assert (Hent : entries_of c = PresentLine.p_entries p) by (unfold entries_of; rewrite Ep; reflexivity).
+      cbn [ps_status ps_headers ps_spref ps_cpref ps_locked file_pst] in *.
       destruct (private_hit true (rq_path r)) eqn:Eh.
       { pose proof (nb_fold (rq_addr r) (PresentLine.p_entries p) _ (nb_hide (mkP 200 [] (PresentLine.p_body p) SP_FULL CFull false))) as Hn.
         unfold nb in Hn. congruence. }
@@ -321,240 +388,189 @@ Section Decision.
       2:{ pose proof (fold_unlisted (rq_addr r) _ (mkP 200 [] (PresentLine.p_body p) SP_FULL CFull false) Hl) as Hn.
           unfold nb in Hn. congruence. }
       assert (Hbody : bad (PresentLine.p_body p) = true).
-      { destruct (bad (PresentLine.p_body p)) eqn:E; [reflexivity|].
-        pose proof (nb_fold (rq_addr r) (PresentLine.p_entries p) (mkP 200 [] (PresentLine.p_body p) SP_FULL CFull false) E) as Hn.
+      { destruct (bad (PresentLine.p_body p)) eqn:E0; [reflexivity|].
+        pose proof (nb_fold (rq_addr r) (PresentLine.p_entries p) (mkP 200 [] (PresentLine.p_body p) SP_FULL CFull false) E0) as Hn.
         unfold nb in Hn. congruence. }
-      destruct (present_parse_body_suffix c p Ep) as [k Hk]. rewrite Hk in Hbody.
+      destruct (line_of_suffix c p Ep) as [k Hk]. rewrite Hk in Hbody.
       apply contains_sub_skipn in Hbody.
       pose proof (Hfs t c Ef Hbody) as Hg. unfold guarded, is_hidden in Hg.
       rewrite Hent, Hh, <- Hp in Hg. cbn [orb] in Hg.
-      exists t, c. repeat split; try assumption.
-      + unfold is_hidden. rewrite Hent, Hh, <- Hp. reflexivity.
-      + rewrite Hent. exact Hl.
+      split.
+      + exists t, c. repeat split; try assumption.
+        * unfold is_hidden. rewrite Hent, Hh, <- Hp. reflexivity.
+        * rewrite Hent. exact Hl.
+      + unfold is_allow_ips in Hg. rewrite Hent in Hg.
+        pose proof (fold_locked fix_errline errpage tmpl (rq_addr r) (PresentLine.p_entries p)
+                      (mkP 200 [] (PresentLine.p_body p) SP_FULL CFull false) (or_intror Hg) Hh) as [_ HS].
+        exact HS.
     - (* no line *)
-      cbn [fold_left] in Hb.
+      cbn [fold_left] in *.
       destruct (private_hit true (rq_path r)) eqn:Eh.
-      { rewrite fat_of_body in Hb. pose proof (nb_hide (file_pst c)) as Hn. unfold nb in Hn. congruence. }
-      rewrite fat_of_body in Hb. cbn [ps_body file_pst] in Hb.
-      pose proof (Hfs t c Ef Hb) as Hg. unfold guarded, is_hidden, is_allow_ips, entries_of in Hg.
-      rewrite Ep, <- Hp in Hg. cbn in Hg. discriminate.
+      { pose proof (nb_hide (file_pst c)) as Hn. unfold nb in Hn. congruence. }
+      cbn [ps_body file_pst] in Hb.
+      pose proof (Hfs t c Ef Hb) as Hg. unfold guarded, is_hidden, is_allow_ips in Hg.
+      rewrite Hent, <- Hp in Hg. cbn in Hg. discriminate.
   Qed.
 
-  (** the server preference of the answers for an allow-ips file: None, for every address, whatever
-      [cache] directives the line carries *)
-  Lemma allow_ips_spref_none r ok t c :
-    served_file (rq_path r) = Ok (Some t) -> fs t = Some c ->
-    is_hidden t c = false -> is_allow_ips c = true -> get_or_head (rq_method r) = true ->
-    f_spref (LB r ok) = SP_NONE.
+  Lemma decision r ov ok : bad (f_body (LB r ov ok)) = true -> permitted fs r.
+  Proof. intros H. apply (decision_strong r ov ok H). Qed.
+
+  (** what is admitted to the response cache carries no secret *)
+  Lemma stored_clean cache_on sfilter m r ov ok :
+    may_store_x cache_on sfilter m (plain (LB r ov ok)) = true -> bad (f_body (LB r ov ok)) = false.
   Proof.
-    intros Es Ef Hh Ha Em.
-    pose proof (private_hit_served _ _ Es) as Hp.
-    unfold is_hidden in Hh. apply orb_false_iff in Hh as [Hh1 Hh2]. rewrite <- Hp in Hh1.
-    destruct ok.
-    2:{ unfold layer_b, base. cbn [negb obind]. rewrite present_error by exact Hh1. reflexivity. }
-    rewrite (layer_b_file r t c Es Em Ef).
-    unfold present. cbn [ps_body file_pst]. rewrite Hh1.
-    unfold is_allow_ips in Ha. unfold entries_of in Ha, Hh2.
-    destruct (PresentLine.present_parse c) as [[p|]|e|]; try (cbn in Ha; discriminate).
-    cbn [ps_status ps_headers ps_spref ps_cpref ps_locked file_pst].
-    pose proof (fold_locked (rq_addr r) (PresentLine.p_entries p)
-                  (mkP 200 [] (PresentLine.p_body p) SP_FULL CFull false) (or_intror Ha) Hh2) as [_ HS].
-    exact HS.
+    intros Hs. destruct (bad (f_body (LB r ov ok))) eqn:E; [|reflexivity]. exfalso.
+    destruct (decision_strong r ov ok E) as [_ HS].
+    unfold may_store_x, wants_cache_x, pref_caches in Hs. cbn [fx_fat plain] in Hs. rewrite HS in Hs.
+    rewrite !andb_false_r in Hs. cbn in Hs. rewrite ?andb_false_r in Hs. discriminate.
   Qed.
 
-  (** a path under which something is stored never yields guarded content *)
-  Lemma stored_path_clean r ok :
-    get_or_head (rq_method r) = true -> pref_caches (f_spref (LB r ok)) = true ->
-    forall r' ok', rq_path r' = rq_path r -> bad (f_body (LB r' ok')) = false.
-  Proof.
-    intros Hm Hp r' ok' Hpath. destruct (bad (f_body (LB r' ok'))) eqn:E; [|reflexivity]. exfalso.
-    apply decision in E. destruct E as [t [c [Es [Ef [Hh [Ha _]]]]]]. rewrite Hpath in Es.
-    rewrite (allow_ips_spref_none r ok t c Es Ef Hh Ha Hm) in Hp. discriminate.
-  Qed.
 End Decision.
 
 (** ---------------------------------------------------------------------------
-    The response cache above any layer that satisfies the two facts proved above. *)
+    The response cache (Model/CacheX.v, the repaired [handle_vary_missing]) above any layer whose
+    answers with guarded content are answers to permitted requests and are never admitted. *)
 Section CacheConfinement.
   Variable hstate : Type.
-  Variable compute : hstate -> request -> bool -> fat * hstate * list bytes.
+  Variable compute : hstate -> request -> option (bytes * option bytes) -> bool -> fatx * hstate * list bytes.
   Variable cache_on ims_on : bool.
+  Variable fix_ovkey fix_clear fix_svary fix_qmkey fix_ims : bool.
+  Variable sfilter : N -> bool.
   Variable parse_ims : bytes -> option Z.
   Variable sanitize_ok : request -> bool.
   Variable prime : request -> request.
-  Variable negotiate : request -> fat -> option (N * bytes).
-  Variable vary_tuple : request -> tuple.
-  Variable vary_header : request -> fat -> list (bytes * bytes).
+  Variable override : request -> option (bytes * option bytes).
+  Variable negotiate : request -> fatx -> option (N * bytes).
+  Variable vary_tuple : request -> option (bytes * option bytes) -> tuple.
+  Variable vary_header : request -> option (bytes * option bytes) -> fatx -> list (bytes * bytes).
+  Variable clear_alias : request -> option request.
   Variable bad : bytes -> bool.
   Variable okreq : request -> Prop.
-  Notation cf hs r ok := (fst (fst (compute hs r ok))).
+  Notation cf hs r ov ok := (fst (fst (compute hs r ov ok))).
+  Notation xbody x := (f_body (fx_fat x)).
   Hypothesis bad_nil' : bad [] = false.
-  Hypothesis Hreq : forall hs r ok, bad (f_body (cf hs r ok)) = true -> okreq r.
-  Hypothesis Hpath : forall hs r ok,
-    get_or_head (rq_method r) = true -> pref_caches (f_spref (cf hs r ok)) = true ->
-    forall hs' r' ok', rq_path r' = rq_path r -> bad (f_body (cf hs' r' ok')) = false.
-  Hypothesis Hneg : forall r f st b, negotiate r f = Some (st, b) -> bad b = false.
+  Hypothesis Hreq : forall hs r ov ok, bad (xbody (cf hs r ov ok)) = true -> okreq r.
+  Hypothesis Hstore : forall hs r ov ok,
+    may_store_x cache_on sfilter (rq_method r) (cf hs r ov ok) = true -> bad (xbody (cf hs r ov ok)) = false.
+  Hypothesis Hneg : forall r x st b, negotiate r x = Some (st, b) -> bad b = false.
 
-  Definition key_path (k : key) : bytes := match k with KPath p => p | KPathQuery s i => firstn i s end.
-  Definition clean_path (p : bytes) : Prop :=
-    forall hs r ok, rq_path r = p -> bad (f_body (cf hs r ok)) = false.
-  Definition entry_clean (e : entry) : Prop := forall t f, In (t, f) (e_vars e) -> bad (f_body f) = false.
-  (** no entry holds guarded content, and no key belongs to a path that can yield guarded content *)
-  Definition CInv (c : cache) : Prop := forall k e, In (k, e) c -> entry_clean e /\ clean_path (key_path k).
-  Definition reply_leaks (rp : reply) : bool := bad (rp_body rp) || bad (rp_identity rp).
+  Notation finishR := (finishX fix_svary negotiate vary_header).
+  Notation missR := (missX hstate compute cache_on ims_on fix_ovkey fix_svary sfilter negotiate vary_tuple vary_header).
+  Notation vmissR := (vary_missingX hstate compute cache_on ims_on true fix_svary fix_qmkey sfilter negotiate vary_tuple vary_header).
+  Notation serveR := (serveX hstate compute cache_on ims_on true fix_ovkey fix_svary fix_qmkey fix_ims sfilter parse_ims sanitize_ok
+                             prime override negotiate vary_tuple vary_header).
+  Notation stepR := (stepX hstate compute cache_on ims_on true fix_ovkey fix_clear fix_svary fix_qmkey fix_ims sfilter parse_ims
+                           sanitize_ok prime override negotiate vary_tuple vary_header clear_alias).
+  Notation runR := (runX hstate compute cache_on ims_on true fix_ovkey fix_clear fix_svary fix_qmkey fix_ims sfilter parse_ims
+                         sanitize_ok prime override negotiate vary_tuple vary_header clear_alias).
 
-  Lemma CInv_nil : CInv [].
-  Proof. intros k e []. Qed.
+  (** no stored variant holds guarded content *)
+  Definition XInv (c : cachex) : Prop :=
+    forall k e v, xc_find k c = Some e -> In v (ex_vars e) -> bad (xbody (v_resp v)) = false.
+  Definition reply_leaks (rp : replyx) : bool := bad (rx_body rp) || bad (rx_identity rp).
 
-  Lemma In_c_remove k k' e c : In (k', e) (c_remove k c) -> In (k', e) c.
+  Lemma XInv_nil : XInv [].
+  Proof. intros k e v H. discriminate. Qed.
+  Lemma XInv_remove k c : XInv c -> XInv (xc_remove k c).
+  Proof. intros H k0 e0 v. rewrite xc_find_remove. destruct (key_eqb k0 k); [discriminate|]. apply H. Qed.
+  Lemma XInv_insert k e c :
+    XInv c -> (forall v, In v (ex_vars e) -> bad (xbody (v_resp v)) = false) -> XInv (xc_insert k e c).
   Proof.
-    induction c as [|[k0 e0] c IH]; cbn [c_remove]; [auto|].
-    destruct (key_eqb k k0); cbn [In]; intuition.
+    intros H He k0 e0 v. rewrite xc_find_insert. destruct (key_eqb k0 k).
+    - intros H0; inversion H0; subst. apply He.
+    - apply H.
   Qed.
-  Lemma CInv_remove k c : CInv c -> CInv (c_remove k c).
-  Proof. intros H k' e Hin. apply H. eapply In_c_remove. exact Hin. Qed.
-  Lemma CInv_insert k e c : CInv c -> entry_clean e -> clean_path (key_path k) -> CInv (c_insert k e c).
+  Lemma XInv_lookup lr c now k res c' :
+    xlookup lr c now = ((k, res), c') -> XInv c ->
+    XInv c' /\ (forall e, res = Some e -> forall v, In v (ex_vars e) -> bad (xbody (v_resp v)) = false).
   Proof.
-    intros H He Hk k' e' [Hin|Hin].
-    - inversion Hin; subst. auto.
-    - apply H. eapply In_c_remove. exact Hin.
+    intros L I. destruct (xlookup_cases _ _ _ _ _ _ L) as (_ & Hc & Hres). split.
+    - intros k0 e0 v F. destruct (Hc k0) as [E | [E _]]; rewrite E in F; [eapply I; exact F | discriminate].
+    - intros e -> v Hin. destruct Hres as (F & _ & _). eapply I; eassumption.
   Qed.
-  Lemma c_find_In k c e : c_find k c = Some e -> In (k, e) c.
-  Proof.
-    induction c as [|[k0 e0] c IH]; cbn [c_find]; [discriminate|].
-    destruct (key_eqb k k0) eqn:E.
-    - intros H; inversion H; subst. apply key_eqb_eq in E. subst. left. reflexivity.
-    - intros H. right. auto.
-  Qed.
+  Lemma XInv_clear_uri r c : XInv c -> XInv (xclear_uri r c).
+  Proof. intros I. unfold xclear_uri. apply XInv_remove, XInv_remove, I. Qed.
 
-  Lemma get_item_inv k c now res c' :
-    get_item k c now = (res, c') -> CInv c ->
-    CInv c' /\ (forall e, res = Some e -> entry_clean e /\ clean_path (key_path k)).
+  Lemma finish_leaks r ov x lm cached ma :
+    reply_leaks (finishR r ov x lm cached ma) = true -> bad (xbody x) = true.
   Proof.
-    unfold get_item. intros H Hc. destruct (c_find k c) as [e|] eqn:F.
-    - destruct (fresh e now); inversion H; subst.
-      + split; [exact Hc|]. intros e' He'. inversion He'; subst. apply Hc. apply c_find_In. exact F.
-      + split; [apply CInv_remove; exact Hc|]. intros e' He'. discriminate.
-    - inversion H; subst. split; [exact Hc|]. intros e' He'. discriminate.
-  Qed.
-
-  Lemma key_path_pq r : key_path (key_pq r) = rq_path r.
-  Proof.
-    unfold key_pq. pose proof (path_query_fst r) as H. destruct (path_query r) as [s i]. exact H.
-  Qed.
-  Lemma key_path_p r : key_path (key_p r) = rq_path r.
-  Proof. reflexivity. Qed.
-
-  Lemma lookup_inv r c now k found c1 :
-    lookup r c now = ((k, found), c1) -> CInv c ->
-    CInv c1 /\ key_path k = rq_path r /\
-    (forall e, found = Some e -> entry_clean e /\ clean_path (rq_path r)).
-  Proof.
-    unfold lookup. intros H Hc.
-    destruct (get_item (key_pq r) c now) as [res c'] eqn:G1.
-    destruct (get_item_inv _ _ _ _ _ G1 Hc) as [Hc' Hres].
-    destruct res as [e|].
-    - inversion H; subst. split; [exact Hc'|]. split; [apply key_path_pq|].
-      intros e' He'. inversion He'; subst. rewrite <- (key_path_pq r). apply Hres. reflexivity.
-    - destruct (get_item (key_p r) c' now) as [res2 c''] eqn:G2.
-      destruct (get_item_inv _ _ _ _ _ G2 Hc') as [Hc'' Hres2].
-      inversion H; subst. split; [exact Hc''|]. split; [apply key_path_p|].
-      intros e' He'. rewrite <- (key_path_p r). apply Hres2. exact He'.
-  Qed.
-
-  Lemma finish_leaks r f lm cached :
-    reply_leaks (finish negotiate vary_header r f lm cached) = true -> bad (f_body f) = true.
-  Proof.
-    unfold finish, reply_leaks. destruct (negotiate r f) as [[st b]|] eqn:E; cbn [rp_body rp_identity].
-    - rewrite (Hneg _ _ _ _ E). cbn [orb]. auto.
+    unfold finishX, reply_leaks.
+    destruct (if is_stream x then None else negotiate r x) as [[st b]|] eqn:E; cbn [rx_body rx_identity].
+    - destruct (is_stream x); [discriminate|]. rewrite (Hneg _ _ _ _ E). cbn [orb]. auto.
     - rewrite orb_diag. auto.
   Qed.
 
-  Lemma insert_key_path r f : key_path (insert_key r f) = rq_path r.
-  Proof. unfold insert_key. destruct (f_spref f =? SP_QUERY); [apply key_path_pq|apply key_path_p]. Qed.
-
-  Lemma miss_conf c1 hs now r ok st' rp lg :
-    CInv c1 ->
-    miss hstate compute cache_on ims_on negotiate vary_tuple vary_header c1 hs now r ok = (st', rp, lg) ->
-    CInv (fst st') /\ (reply_leaks rp = true -> okreq r).
+  Lemma miss_conf c1 hs now r ov ok st' rp lg :
+    XInv c1 -> missR c1 hs now r ov ok = (st', rp, lg) ->
+    XInv (fst st') /\ (reply_leaks rp = true -> okreq r).
   Proof.
-    intros Hc. unfold miss.
-    destruct (compute hs r ok) as [[f hs'] lg'] eqn:Ec.
-    assert (Ef : f = cf hs r ok) by (rewrite Ec; reflexivity).
-    destruct (may_store cache_on (rq_method r) f) eqn:Em; intros H; inversion H; subst st' rp lg; cbn [fst].
+    intros Hc. unfold missX.
+    pose proof (Hstore hs r ov ok) as HS. pose proof (Hreq hs r ov ok) as HR.
+    destruct (compute hs r ov ok) as [[x hs'] lg'] eqn:Ec. cbn [fst] in HS, HR.
+    destruct (may_store_x cache_on sfilter (rq_method r) x) eqn:Em; intros H; inversion H; subst st' rp lg; cbn [fst].
     - split.
-      + unfold may_store, wants_cache in Em.
-        apply andb_true_iff in Em as [Em _]. apply andb_true_iff in Em as [Em _].
-        apply andb_true_iff in Em as [Em Hgh]. apply andb_true_iff in Em as [Em _].
-        apply andb_true_iff in Em as [_ Hpc].
-        assert (Hclean : clean_path (rq_path r)).
-        { intros hs2 r2 ok2 Hp2. eapply Hpath; [exact Hgh| |exact Hp2]. rewrite <- Ef. exact Hpc. }
-        apply CInv_insert; [exact Hc| |rewrite insert_key_path; exact Hclean].
-        intros t f' [Hin|[]]. inversion Hin; subst f'. rewrite Ef. apply Hclean. reflexivity.
-      + intros Hl. apply finish_leaks in Hl. eapply Hreq. rewrite <- Ef. exact Hl.
-    - split; [exact Hc|]. intros Hl. apply finish_leaks in Hl. eapply Hreq. rewrite <- Ef. exact Hl.
+      + apply XInv_insert; [exact Hc|]. cbn [ex_vars]. intros v [<- | []]. cbn [v_resp]. apply HS. reflexivity.
+      + intros Hl. apply finish_leaks in Hl. apply HR, Hl.
+    - split; [exact Hc|]. intros Hl. apply finish_leaks in Hl. apply HR, Hl.
   Qed.
 
   Lemma serve_conf st now r0 st' rp lg :
-    CInv (fst st) ->
-    serve hstate compute cache_on ims_on parse_ims sanitize_ok prime negotiate vary_tuple vary_header st now r0 = (st', rp, lg) ->
-    CInv (fst st') /\ (reply_leaks rp = true -> okreq (prime r0)).
+    XInv (fst st) -> serveR st now r0 = (st', rp, lg) ->
+    XInv (fst st') /\ (reply_leaks rp = true -> okreq (prime r0)).
   Proof.
-    destruct st as [c hs]. cbn [fst]. intros Hc. unfold serve.
-    set (r := prime r0). set (ok := sanitize_ok r0).
+    destruct st as [c hs]. cbn [fst]. intros Hc. unfold serveX.
+    set (r := prime r0). set (ok := sanitize_ok r0). set (ov := override r0).
     destruct (negb cache_on) eqn:Eon.
-    { destruct (compute hs r ok) as [[f hs'] lg'] eqn:Ec.
-      assert (Ef : f = cf hs r ok) by (rewrite Ec; reflexivity).
+    { pose proof (Hreq hs r ov ok) as HR.
+      destruct (compute hs r ov ok) as [[x hs'] lg'] eqn:Ec. cbn [fst] in HR.
       intros H; inversion H; subst st' rp lg. cbn [fst]. split; [exact Hc|].
-      intros Hl. apply finish_leaks in Hl. eapply Hreq. rewrite <- Ef. exact Hl. }
-    destruct (lookup r c now) as [[k found] c1] eqn:El.
-    destruct (lookup_inv _ _ _ _ _ _ El Hc) as [Hc1 [Hk Hfound]].
+      intros Hl. apply finish_leaks in Hl. apply HR, Hl. }
+    destruct (xlookup (lookup_req r ov) c now) as [[k found] c1] eqn:El.
+    destruct (XInv_lookup _ _ _ _ _ _ El Hc) as [Hc1 Hfound].
     destruct found as [e|]; [|apply miss_conf; exact Hc1].
     destruct (ok && get_or_head (rq_method r)); [|apply miss_conf; exact Hc1].
-    destruct (Hfound e eq_refl) as [Hclean_e Hclean_p].
+    pose proof (Hfound e eq_refl) as Hclean_e.
     match goal with |- (if ?b then _ else _) = _ -> _ => destruct b end.
     { intros H; inversion H; subst st' rp lg. cbn [fst]. split; [exact Hc1|].
-      unfold reply_leaks. cbn [rp_body rp_identity]. rewrite bad_nil'. discriminate. }
-    destruct (v_find (vary_tuple r) (e_vars e)) as [f|] eqn:Ev.
+      unfold reply_leaks. cbn [rx_body rx_identity]. rewrite bad_nil'. discriminate. }
+    destruct (xv_find (vary_tuple r ov) (ex_vars e)) as [v|] eqn:Ev.
     { intros H; inversion H; subst st' rp lg. cbn [fst]. split; [exact Hc1|].
-      intros Hl. apply finish_leaks in Hl. apply v_find_in in Ev. rewrite (Hclean_e _ _ Ev) in Hl. discriminate. }
-    destruct (compute hs r ok) as [[f hs'] lg'] eqn:Ec.
-    assert (Ef : f = cf hs r ok) by (rewrite Ec; reflexivity).
-    intros H; inversion H; subst st' rp lg. cbn [fst]. split.
-    - apply CInv_insert; [exact Hc1| |rewrite Hk; exact Hclean_p].
-      intros t f' Hin. cbn [e_vars] in Hin. destruct Hin as [Hin|Hin].
-      + inversion Hin; subst f'. rewrite Ef. apply Hclean_p. reflexivity.
-      + eapply Hclean_e. exact Hin.
-    - intros Hl. apply finish_leaks in Hl. eapply Hreq. rewrite <- Ef. exact Hl.
+      intros Hl. apply finish_leaks in Hl. apply xv_find_in in Ev as [Ev _]. rewrite (Hclean_e _ Ev) in Hl. discriminate. }
+    unfold vary_missingX.
+    pose proof (Hstore hs r ov ok) as HS. pose proof (Hreq hs r ov ok) as HR.
+    destruct (compute hs r ov ok) as [[x hs'] lg'] eqn:Ec. cbn [fst] in HS, HR.
+    destruct (may_store_x cache_on sfilter (rq_method r) x && (negb fix_qmkey || qm_key_ok k x)) eqn:Ea;
+      intros H; inversion H; subst st' rp lg; cbn [fst].
+    - apply andb_true_iff in Ea as [Ea _]. split.
+      + apply XInv_insert; [exact Hc1|]. cbn [ex_vars]. intros v [<- | Hin].
+        * cbn [v_resp]. apply HS, Ea.
+        * apply Hclean_e, Hin.
+      + intros Hl. apply finish_leaks in Hl. apply HR, Hl.
+    - split; [exact Hc1|]. intros Hl. apply finish_leaks in Hl. apply HR, Hl.
   Qed.
 
-  Definition obs_ok (o : op) (ob : obs) : Prop :=
+  Definition obs_ok (o : opx) (ob : obsx) : Prop :=
     match o, ob with
-    | OReq r, ObReply rp _ => reply_leaks rp = true -> okreq (prime r)
+    | XReq r, XbReply rp _ => reply_leaks rp = true -> okreq (prime r)
     | _, _ => True
     end.
 
   Lemma step_conf st now o st' now' ob :
-    CInv (fst st) ->
-    Cache.step hstate compute cache_on ims_on parse_ims sanitize_ok prime negotiate vary_tuple vary_header st now o = (st', now', ob) ->
-    CInv (fst st') /\ obs_ok o ob.
+    XInv (fst st) -> stepR st now o = (st', now', ob) -> XInv (fst st') /\ obs_ok o ob.
   Proof.
-    intros Hc. destruct o as [r|r| |ms]; cbn [Cache.step].
-    - destruct (serve _ _ _ _ _ _ _ _ _ _ st now r) as [[st1 rp] lg] eqn:Es.
+    intros Hc. destruct o as [r|r| |ms]; cbn [stepX].
+    - destruct (serveR st now r) as [[st1 rp] lg] eqn:Es.
       intros H; inversion H; subst. cbn [obs_ok]. eapply serve_conf; eassumption.
     - destruct st as [c hs]. intros H; inversion H; subst. cbn [fst obs_ok]. split; [|exact I].
-      unfold clear_page. apply CInv_remove, CInv_remove. exact Hc.
-    - destruct st as [c hs]. intros H; inversion H; subst. cbn [fst obs_ok]. split; [apply CInv_nil|exact I].
+      unfold xclear_page. destruct (if fix_clear then clear_alias r else None); repeat apply XInv_clear_uri; exact Hc.
+    - destruct st as [c hs]. intros H; inversion H; subst. cbn [fst obs_ok]. split; [apply XInv_nil|exact I].
     - intros H; inversion H; subst. split; [exact Hc|exact I].
   Qed.
 
-  Lemma run_conf ops : forall st now,
-    CInv (fst st) ->
-    Forall2 obs_ok ops
-      (run hstate compute cache_on ims_on parse_ims sanitize_ok prime negotiate vary_tuple vary_header st now ops).
+  Lemma run_conf ops : forall st now, XInv (fst st) -> Forall2 obs_ok ops (runR st now ops).
   Proof.
-    induction ops as [|o ops IH]; intros st now Hc; cbn [run]; [constructor|].
-    destruct (Cache.step _ _ _ _ _ _ _ _ _ _ st now o) as [[st' now'] ob] eqn:Es.
+    induction ops as [|o ops IH]; intros st now Hc; cbn [runX]; [constructor|].
+    destruct (stepR st now o) as [[st' now'] ob] eqn:Es.
     destruct (step_conf _ _ _ _ _ _ Hc Es) as [Hc' Hob].
     constructor; [exact Hob|]. apply IH. exact Hc'.
   Qed.
@@ -567,34 +583,41 @@ Lemma Forall2_mono {A B} (R1 R2 : A -> B -> Prop) l1 l2 :
 Proof. intros H F. induction F; constructor; auto. Qed.
 
 Section Confined.
+  Variable fix_errline cors : bool.
   Variable fs : bytes -> option bytes.
   Variable errpage : N -> bytes.
+  Variable tmpl : list bytes -> bytes -> bytes.
   Variable secret : bytes.
   Hypothesis Hfs : forall t c, fs t = Some c -> contains_sub secret c = true -> guarded t c = true.
   Hypothesis Herr_clean : forall s, contains_sub secret (errpage s) = false.
-  Hypothesis Herr_plain : forall s, PresentLine.present_parse (errpage s) = Ok None.
+  Hypothesis Htmpl : forall args b, contains_sub secret (tmpl args b) = true -> contains_sub secret b = true.
+  Hypothesis Hcors : cors = true -> contains_sub secret (ps_body cors_pst) = false.
 
   Lemma guarded_content_confined_lemma :
-    forall cache_on ims_on parse_ims prime refuses vary_tuple vary_header now ops,
+    forall cache_on ims_on fix_ovkey fix_clear fix_svary fix_qmkey fix_ims sfilter parse_ims prime override refuses
+           vary_tuple vary_header clear_alias now ops,
       Forall2 (reply_ok fs secret prime) ops
-        (run_g true true fs errpage cache_on ims_on parse_ims prime refuses vary_tuple vary_header [] now ops).
+        (run_g true true fix_errline cors fs errpage tmpl cache_on ims_on fix_ovkey fix_clear fix_svary fix_qmkey fix_ims
+               sfilter parse_ims prime override refuses vary_tuple vary_header clear_alias [] now ops).
   Proof.
     intros. unfold run_g.
-    pose proof (run_conf unit (compute_g true true fs errpage) cache_on ims_on parse_ims
-                  (sanitize_ok_g) prime (negotiate_g errpage refuses) vary_tuple vary_header
+    pose proof (run_conf unit (compute_g true true fix_errline cors fs errpage tmpl) cache_on ims_on
+                  fix_ovkey fix_clear fix_svary fix_qmkey fix_ims sfilter parse_ims
+                  sanitize_ok_g prime override (negotiate_g errpage refuses) vary_tuple vary_header clear_alias
                   (contains_sub secret) (permitted fs)) as H.
-    assert (Hall : forall ops' st now', CInv unit (compute_g true true fs errpage) (contains_sub secret) (fst st) ->
-              Forall2 (obs_ok prime (contains_sub secret) (permitted fs)) ops'
-                (run unit (compute_g true true fs errpage) cache_on ims_on parse_ims sanitize_ok_g prime
-                     (negotiate_g errpage refuses) vary_tuple vary_header st now' ops')).
-    { intros ops' st now' Hc. apply H; try assumption.
-      - apply (bad_nil fs errpage secret Hfs Herr_clean).
-      - intros hs r ok. cbn [compute_g fst]. apply (decision fs errpage secret Hfs Herr_clean Herr_plain).
-      - intros hs r ok Hm Hp hs' r' ok' Hpath. cbn [compute_g fst] in *.
-        eapply (stored_path_clean fs errpage secret Hfs Herr_clean Herr_plain); eassumption.
-      - intros r f st' b. unfold negotiate_g. destruct (refuses r f); [|discriminate].
-        intros E; inversion E; subst. apply Herr_clean. }
-    specialize (Hall ops ([], tt) now (CInv_nil _ _ _)).
+    assert (Hall : Forall2 (obs_ok prime (contains_sub secret) (permitted fs)) ops
+                (runX unit (compute_g true true fix_errline cors fs errpage tmpl) cache_on ims_on true fix_ovkey fix_clear
+                      fix_svary fix_qmkey fix_ims sfilter parse_ims sanitize_ok_g prime override
+                      (negotiate_g errpage refuses) vary_tuple vary_header clear_alias ([], tt) now ops)).
+    { apply H.
+      - apply (bad_nil cors fs errpage tmpl secret Hfs Herr_clean Htmpl Hcors).
+      - intros hs r ov ok. cbn [compute_g fst plain fx_fat].
+        apply (decision fix_errline cors fs errpage tmpl secret Hfs Herr_clean Htmpl Hcors).
+      - intros hs r ov ok. cbn [compute_g fst].
+        apply (stored_clean fix_errline cors fs errpage tmpl secret Hfs Herr_clean Htmpl Hcors).
+      - intros r x st' b. unfold negotiate_g. destruct (refuses r x); [|discriminate].
+        intros E; inversion E; subst. apply Herr_clean.
+      - apply XInv_nil. }
     clear H. eapply Forall2_mono; [|exact Hall]. intros o ob Ho.
     destruct o as [r|r| |ms], ob as [rp lg| |]; cbn [reply_ok obs_ok] in *; auto.
   Qed.
@@ -602,15 +625,15 @@ Section Confined.
   (** [allow-ips] forces the server preference None for every answer of the file (any address,
       any [cache] directive on the line), hence the answer may not be stored *)
   Lemma allow_ips_never_stored_lemma :
-    forall r ok t c cache_on,
+    forall r ov t c cache_on sfilter,
       served_file (rq_path r) = Ok (Some t) -> fs t = Some c -> is_hidden t c = false -> is_allow_ips c = true ->
-      get_or_head (rq_method r) = true ->
-      f_spref (layer_b true true fs errpage r ok) = SP_NONE /\
-      may_store cache_on (rq_method r) (layer_b true true fs errpage r ok) = false.
+      get_or_head (rq_method r) = true -> (cors && is_cors_fail ov) = false ->
+      f_spref (layer_b true true fix_errline cors fs errpage tmpl r ov true) = SP_NONE /\
+      may_store_x cache_on sfilter (rq_method r) (plain (layer_b true true fix_errline cors fs errpage tmpl r ov true)) = false.
   Proof.
-    intros r ok t c cache_on Es Ef Hh Ha Hm.
-    pose proof (allow_ips_spref_none fs errpage Herr_plain r ok t c Es Ef Hh Ha Hm) as HS.
-    split; [exact HS|]. unfold may_store, wants_cache, pref_caches. rewrite HS.
+    intros r ov t c cache_on sfilter Es Ef Hh Ha Hm Hc.
+    pose proof (allow_ips_spref_none fix_errline errpage tmpl cors fs r ov t c Es Ef Hh Ha Hm Hc) as HS.
+    split; [exact HS|]. unfold may_store_x, wants_cache_x, pref_caches. cbn [fx_fat plain is_stream fx_stream negb andb]. rewrite HS.
     destruct cache_on; reflexivity.
   Qed.
 End Confined.
@@ -630,8 +653,8 @@ Lemma permitted_b_false fs r : permitted_b fs r = false -> ~ permitted fs r.
 Proof. intros H P. apply permitted_b_true in P. congruence. Qed.
 
 (** a history violates the property: some reply carries the secret although its request is not permitted *)
-Definition violates (fs : bytes -> option bytes) (secret : bytes) (ops : list op) (obs : list obs) : Prop :=
-  exists i r rp lg, nth_error ops i = Some (OReq r) /\ nth_error obs i = Some (ObReply rp lg) /\
+Definition violates (fs : bytes -> option bytes) (secret : bytes) (ops : list opx) (obs : list obsx) : Prop :=
+  exists i r rp lg, nth_error ops i = Some (XReq r) /\ nth_error obs i = Some (XbReply rp lg) /\
                     leaks secret rp = true /\ ~ permitted fs r.
 
 Lemma violates_not_ok fs secret ops obs : violates fs secret ops obs -> ~ Forall2 (reply_ok fs secret (fun r => r)) ops obs.
@@ -644,56 +667,76 @@ Qed.
 
 (** ---------------------------------------------------------------------------
     A concrete host: one file of each kind.  Used for the non-vacuity examples and for the
-    witnesses against the code before the two repairs. *)
+    witnesses against the code before the repairs. *)
 Definition W_SECRET : bytes := Eval vm_compute in B "SECRET-7f3a".
 Definition w_private : bytes := Eval vm_compute in B "SECRET-7f3a of secret.private".
 Definition w_ac : bytes := Eval vm_compute in B "!> allow-ips 10.0.0.1 &> cache server:full" ++ [10] ++ B "SECRET-7f3a for 10.0.0.1 only".
+Definition w_v6 : bytes := Eval vm_compute in B "!> allow-ips ::ffff:10.0.0.1 2001:db8::1" ++ [10] ++ B "SECRET-7f3a for two IPv6 clients".
 Definition w_hide : bytes := Eval vm_compute in B "!> hide" ++ [10] ++ B "SECRET-7f3a for nobody".
+Definition w_both : bytes := Eval vm_compute in B "!> hide &> allow-ips 10.0.0.1" ++ [10] ++ B "SECRET-7f3a hidden and listed".
 Definition w_plain : bytes := Eval vm_compute in B "public text".
 Definition w_fs (t : bytes) : option bytes :=
   if beq t (B "secret.private") then Some w_private
   else if beq t (B "ac.txt") then Some w_ac
+  else if beq t (B "v6.txt") then Some w_v6
   else if beq t (B "h.txt") then Some w_hide
+  else if beq t (B "both.txt") then Some w_both
   else if beq t (B "p.txt") then Some w_plain
   else None.
 Definition w_err (s : N) : bytes := Eval vm_compute in B "<!DOCTYPE html><html><head><title>error</title></head></html>".
-Definition w_get (p : bytes) (addr : N) : op := OReq (mkReq M_GET p None [] addr).
-Definition w_run (fix_ext fix_lock cache_on : bool) (ops : list op) : list obs :=
-  run_g fix_ext fix_lock w_fs w_err cache_on true (fun _ => None) (fun r => r) (fun _ _ => false) (fun _ => []) (fun _ _ => []) [] 0 ops.
+Definition w_tmpl (args : list bytes) (b : bytes) : bytes := b.
+Definition w_get (p : bytes) (addr : N) : opx := XReq (mkReq M_GET p None [] addr).
+Definition w_run_gen (err : N -> bytes) (tm : list bytes -> bytes -> bytes) (fix_ext fix_lock fix_errline cache_on : bool) (ops : list opx) : list obsx :=
+  run_g fix_ext fix_lock fix_errline false w_fs err tm cache_on true true true true true true status_filter_drop
+        (fun _ => None) (fun r => r) (fun _ => None) (fun _ _ => false) (fun _ _ => []) (fun _ _ _ => []) clear_alias_fix [] 0 ops.
+Definition w_run_err (err : N -> bytes) := w_run_gen err w_tmpl.
+Definition w_run (fix_ext fix_lock cache_on : bool) (ops : list opx) : list obsx :=
+  w_run_err w_err fix_ext fix_lock true cache_on ops.
 
 Lemma w_hypotheses :
   (forall t c, w_fs t = Some c -> contains_sub W_SECRET c = true -> guarded t c = true) /\
   (forall s, contains_sub W_SECRET (w_err s) = false) /\
-  (forall s, PresentLine.present_parse (w_err s) = Ok None).
+  (forall args b, contains_sub W_SECRET (w_tmpl args b) = true -> contains_sub W_SECRET b = true).
 Proof.
-  split; [|split; intros s; vm_compute; reflexivity].
+  split; [|split; [intros s; vm_compute; reflexivity | intros args b H; exact H]].
   intros t c. unfold w_fs.
   destruct (beq t (B "secret.private")) eqn:E1.
   { apply beq_eq in E1. subst. intros H _. inversion H; subst. vm_compute. reflexivity. }
   destruct (beq t (B "ac.txt")) eqn:E2.
   { apply beq_eq in E2. subst. intros H _. inversion H; subst. vm_compute. reflexivity. }
+  destruct (beq t (B "v6.txt")) eqn:E2'.
+  { apply beq_eq in E2'. subst. intros H _. inversion H; subst. vm_compute. reflexivity. }
   destruct (beq t (B "h.txt")) eqn:E3.
   { apply beq_eq in E3. subst. intros H _. inversion H; subst. vm_compute. reflexivity. }
+  destruct (beq t (B "both.txt")) eqn:E3'.
+  { apply beq_eq in E3'. subst. intros H _. inversion H; subst. vm_compute. reflexivity. }
   destruct (beq t (B "p.txt")) eqn:E4; [|discriminate].
   intros H Hc. inversion H; subst. vm_compute in Hc. discriminate.
 Qed.
 
 (** non-vacuity: on the repaired model the listed address does receive the content (and is
-    permitted), every other request of the history gets the 404 page *)
-Definition w_history : list op :=
+    permitted), every other request of the history gets the 404 page; the IPv4-mapped IPv6 client is listed
+    by [::ffff:10.0.0.1] but not by [10.0.0.1], and the IPv4 client 10.0.0.1 not by [::ffff:10.0.0.1] *)
+Definition W_MAPPED : N := Eval vm_compute in V6_BASE + 281470849515521.     (* ::ffff:10.0.0.1 *)
+Definition W_DB8 : N := Eval vm_compute in V6_BASE + 42540766411282592856903984951653826561.   (* 2001:db8::1 *)
+Definition w_history : list opx :=
   [ w_get (B "/ac.txt") 1; w_get (B "/ac.txt") 2; w_get (B "/ac%2Etxt") 1; w_get (B "/ac%2etxt") 3;
     w_get (B "/secret.private") 1; w_get (B "/secret%2Eprivate") 1; w_get (B "/%73ecret%2e%70rivate") 1;
-    w_get (B "/h.txt") 1; w_get (B "/%68.txt") 1; w_get (B "/p.txt") 9 ].
-Definition w_summary (ops : list op) (obs : list obs) : list (N * bool * bool) :=
+    w_get (B "/h.txt") 1; w_get (B "/%68.txt") 1; w_get (B "/p.txt") 9;
+    w_get (B "/ac.txt") W_MAPPED; w_get (B "/v6.txt") W_MAPPED; w_get (B "/v6.txt") 1; w_get (B "/v6.txt") W_DB8;
+    w_get (B "/ac.txt") (V4_BASE + 167772161) ].
+Definition w_summary (ops : list opx) (obs : list obsx) : list (N * bool * bool) :=
   map (fun '(o, ob) => match o, ob with
-                       | OReq r, ObReply rp _ => (rp_status rp, leaks W_SECRET rp, permitted_b w_fs r)
+                       | XReq r, XbReply rp _ => (rx_status rp, leaks W_SECRET rp, permitted_b w_fs r)
                        | _, _ => (0, false, false)
                        end) (combine ops obs).
 Lemma w_history_repaired :
   w_summary w_history (w_run true true true w_history) =
     [ (200, true, true); (404, false, false); (200, true, true); (404, false, false);
       (404, false, false); (404, false, false); (404, false, false);
-      (404, false, false); (404, false, false); (200, false, false) ].
+      (404, false, false); (404, false, false); (200, false, false);
+      (404, false, false); (200, true, true); (404, false, false); (200, true, true);
+      (200, true, true) ].
 Proof. vm_compute. reflexivity. Qed.
 
 (** the code before the first repair (file extension looked up on the raw path): [/secret%2Eprivate] *)
@@ -718,8 +761,8 @@ Proof.
 Qed.
 
 Lemma reply_ok_meaning_lemma fs secret prime r0 rp lg :
-  reply_ok fs secret prime (OReq r0) (ObReply rp lg) -> let r := prime r0 in
-  contains_sub secret (rp_body rp) = true \/ contains_sub secret (rp_identity rp) = true ->
+  reply_ok fs secret prime (XReq r0) (XbReply rp lg) -> let r := prime r0 in
+  contains_sub secret (rx_body rp) = true \/ contains_sub secret (rx_identity rp) = true ->
   exists t c, served_file (rq_path r) = Ok (Some t) /\ fs t = Some c /\
               is_private t = false /\ has_name N_HIDE (entries_of c) = false /\
               has_name N_ALLOW (entries_of c) = true /\ listed (rq_addr r) (entries_of c) = true.
@@ -738,65 +781,882 @@ Lemma spelling_example_lemma :
 Proof. vm_compute. repeat split; reflexivity. Qed.
 
 (** ---------------------------------------------------------------------------
-    "the answer is the host's 404": what the layer below the cache returns for a hidden / private
-    file, and for an [allow-ips] file when the address is not listed. *)
+    "the answer is the host's 404".  The host's 404 page as a client sees it: [errors/404.html] without its
+    [!> ] line, else the hard-coded page. *)
+Definition host_404_body (errpage : N -> bytes) : bytes :=
+  match line_of (errpage 404) with Some p => PresentLine.p_body p | None => errpage 404 end.
+
 Section NotFound.
+  Variable cors : bool.
   Variable fs : bytes -> option bytes.
   Variable errpage : N -> bytes.
-  Notation stepv := (step true errpage).
-  Definition is404 (st : pst) : Prop := ps_status st = 404 /\ ps_body st = errpage 404.
+  Variable tmpl : list bytes -> bytes -> bytes.
+  (** the 404 page is not a template *)
+  Hypothesis Herr_notmpl : first_tmpl (entries_of (errpage 404)) = None.
+  Notation stepv := (step true true errpage tmpl).
+  Notation H404 := (host_404_body errpage).
+  Definition is404 (st : pst) : Prop := ps_status st = 404 /\ ps_body st = H404.
 
-  Lemma is404_hide st : is404 (do_hide errpage st).
-  Proof. split; reflexivity. Qed.
-
-  Lemma is404_step addr st e : is404 st -> is404 (stepv addr st e).
+  Lemma hide_body_404 : error_body_hide true errpage tmpl 404 = H404.
   Proof.
-    intros [H1 H2]. destruct e as [name args]. unfold step.
+    unfold error_body_hide, host_404_body. rewrite entries_of_line in Herr_notmpl.
+    destruct (line_of (errpage 404)) as [p|]; [|reflexivity]. rewrite Herr_notmpl. reflexivity.
+  Qed.
+  Lemma allow_body_404 : error_body_allow true errpage 404 = H404.
+  Proof. unfold error_body_allow, host_404_body. destruct (line_of (errpage 404)); reflexivity. Qed.
+
+  Lemma is404_hide st : is404 (do_hide true errpage tmpl st).
+  Proof. split; [reflexivity|]. cbn [do_hide to_error ps_body]. apply hide_body_404. Qed.
+
+  Lemma is404_step addr st e : fst e <> N_TMPL -> is404 st -> is404 (stepv addr st e).
+  Proof.
+    intros Hn [H1 H2]. destruct e as [name args]. cbn [fst] in Hn. unfold step.
     destruct (beq name N_HIDE); [apply is404_hide|].
     destruct (beq name N_ALLOW).
-    { unfold do_allow. destruct (existsb (arg_matches addr) args); split; cbn; auto. }
+    { unfold do_allow. destruct (existsb (arg_matches addr) args); split; cbn [ps_status ps_body to_error]; auto. }
     destruct (beq name N_CACHE).
     { unfold do_cache. destruct (cache_parse args None None). split; cbn; auto. }
-    destruct (beq name N_DOWNLOAD); split; cbn; auto.
+    destruct (beq name N_DOWNLOAD); [split; cbn; auto|].
+    destruct (beq name N_TMPL) eqn:E; [apply beq_eq in E; contradiction|]. split; assumption.
   Qed.
-  Lemma is404_fold addr es st : is404 st -> is404 (fold_left (stepv addr) es st).
-  Proof. revert st; induction es as [|e es IH]; intros st H; cbn [fold_left]; [exact H|]. apply IH, is404_step, H. Qed.
+  Definition no_tmpl (es : list PresentLine.entry) : Prop := Forall (fun e => fst e <> N_TMPL) es.
+  Lemma no_tmpl_b es : has_name N_TMPL es = false -> no_tmpl es.
+  Proof.
+    induction es as [|e es IH]; intros H; [constructor|]. cbn [has_name existsb] in H.
+    apply orb_false_iff in H as [H1 H2]. constructor; [|apply IH, H2].
+    intros E. rewrite E, beq_refl in H1. discriminate.
+  Qed.
+  Lemma is404_fold addr es st : no_tmpl es -> is404 st -> is404 (fold_left (stepv addr) es st).
+  Proof.
+    revert st; induction es as [|e es IH]; intros st Hn H; cbn [fold_left]; [exact H|].
+    inversion Hn; subst. apply IH; [assumption|]. apply is404_step; assumption.
+  Qed.
 
-  Lemma fold_hide_404 addr es st : has_name N_HIDE es = true -> is404 (fold_left (stepv addr) es st).
+  Lemma fold_hide_404 addr es st : no_tmpl es -> has_name N_HIDE es = true -> is404 (fold_left (stepv addr) es st).
   Proof.
-    revert st; induction es as [|[name args] es IH]; intros st H; cbn [fold_left has_name existsb fst] in *; [discriminate|].
-    unfold has_name in IH. apply orb_true_iff in H as [H|H]; [|apply IH, H].
-    apply is404_fold. unfold step. rewrite H. apply is404_hide.
+    revert st; induction es as [|[name args] es IH]; intros st Hn H; cbn [fold_left has_name existsb fst] in *; [discriminate|].
+    inversion Hn; subst.
+    unfold has_name in IH. apply orb_true_iff in H as [H|H]; [|apply IH; assumption].
+    apply is404_fold; [assumption|]. unfold step. rewrite H. apply is404_hide.
   Qed.
-  Lemma fold_unlisted_404 addr es st : listed addr es = false -> is404 (fold_left (stepv addr) es st).
+  Lemma fold_unlisted_404 addr es st : no_tmpl es -> listed addr es = false -> is404 (fold_left (stepv addr) es st).
   Proof.
-    revert st; induction es as [|[name args] es IH]; intros st H; cbn [fold_left listed forallb fst snd] in *; [discriminate|].
-    unfold listed in IH. apply andb_false_iff in H as [H|H]; [|apply IH, H].
-    apply is404_fold. unfold step.
+    revert st; induction es as [|[name args] es IH]; intros st Hn H; cbn [fold_left listed forallb fst snd] in *; [discriminate|].
+    inversion Hn; subst.
+    unfold listed in IH. apply andb_false_iff in H as [H|H]; [|apply IH; assumption].
+    apply is404_fold; [assumption|]. unfold step.
     destruct (beq name N_HIDE); [apply is404_hide|].
     destruct (beq name N_ALLOW); [|discriminate].
-    unfold do_allow. rewrite H. split; reflexivity.
+    unfold do_allow. rewrite H. split; [reflexivity|]. cbn [to_error ps_body]. apply allow_body_404.
   Qed.
 
-  Lemma guarded_answer_is_404_lemma r t c :
+  (** below the cache: for a GET/HEAD of a readable file that is hidden / private, or marked [allow-ips]
+      without listing the client address, status 404 and the host's 404 page, whatever the spelling *)
+  Lemma guarded_answer_is_404_lemma r ov t c :
     served_file (rq_path r) = Ok (Some t) -> fs t = Some c -> get_or_head (rq_method r) = true ->
-    (exists parsed, PresentLine.present_parse c = Ok parsed) ->
+    (cors && is_cors_fail ov) = false -> has_name N_TMPL (entries_of c) = false ->
     is_hidden t c = true \/ listed (rq_addr r) (entries_of c) = false ->
-    f_status (layer_b true true fs errpage r true) = 404 /\
-    f_body (layer_b true true fs errpage r true) = errpage 404.
+    f_status (layer_b true true true cors fs errpage tmpl r ov true) = 404 /\
+    f_body (layer_b true true true cors fs errpage tmpl r ov true) = H404.
   Proof.
-    intros Es Ef Em [parsed Ep] H.
+    intros Es Ef Em Ec Hnt H.
     pose proof (private_hit_served _ _ Es) as Hp.
-    unfold layer_b, base. cbn [negb]. rewrite Es, Em, Ef. cbn [obind].
-    unfold present. cbn [ps_body file_pst]. rewrite Ep.
-    unfold is_hidden, entries_of in H. rewrite Ep, <- Hp in H.
-    assert (G : forall st : pst, is404 st -> f_status (fat_of st) = 404 /\ f_body (fat_of st) = errpage 404)
+    unfold layer_b, base. cbn [negb]. rewrite Es, Ec, Em, Ef.
+    unfold present. cbn [ps_body file_pst].
+    unfold is_hidden in H. rewrite entries_of_line in H, Hnt. rewrite <- Hp in H.
+    assert (G : forall st : pst, is404 st -> f_status (fat_of st) = 404 /\ f_body (fat_of st) = H404)
       by (intros st [A B0]; split; assumption).
     apply G.
-    destruct (private_hit true (rq_path r)).
-    { apply is404_fold, is404_hide. }
-    cbn [orb] in H. destruct parsed as [p|].
-    - destruct H as [H|H]; [apply fold_hide_404, H|apply fold_unlisted_404, H].
-    - destruct H as [H|H]; cbn in H; discriminate.
+    destruct (line_of c) as [p|].
+    - apply no_tmpl_b in Hnt.
+      destruct (private_hit true (rq_path r)); [apply is404_fold; [exact Hnt | apply is404_hide]|].
+      cbn [orb] in H. destruct H as [H|H]; [apply fold_hide_404 | apply fold_unlisted_404]; assumption.
+    - cbn [fold_left]. destruct (private_hit true (rq_path r)); [apply is404_hide|].
+      destruct H as [H|H]; cbn in H; discriminate.
   Qed.
 End NotFound.
+
+(** ---------------------------------------------------------------------------
+    What the response cache can answer with: every stored variant was admitted when it was computed for a
+    request whose looked-up URI has the path of the key it is stored under (the repaired insert key). *)
+Definition key_path (k : key) : bytes := match k with KPath p => p | KPathQuery s i => firstn i s end.
+Lemma key_path_pq r : key_path (key_pq r) = rq_path r.
+Proof. unfold key_pq. pose proof (path_query_fst r) as H. destruct (path_query r) as [s i]. exact H. Qed.
+Lemma key_path_p r : key_path (key_p r) = rq_path r.
+Proof. reflexivity. Qed.
+Lemma insert_key_path r f : key_path (insert_key r f) = rq_path r.
+Proof. unfold insert_key. destruct (f_spref f =? SP_QUERY); [apply key_path_pq|apply key_path_p]. Qed.
+
+Section CacheAnswers.
+  Variable hstate : Type.
+  Variable compute : hstate -> request -> option (bytes * option bytes) -> bool -> fatx * hstate * list bytes.
+  Variable cache_on ims_on : bool.
+  Variable fix_clear fix_svary fix_qmkey fix_ims : bool.
+  Variable sfilter : N -> bool.
+  Variable parse_ims : bytes -> option Z.
+  Variable sanitize_ok : request -> bool.
+  Variable prime : request -> request.
+  Variable override : request -> option (bytes * option bytes).
+  Variable negotiate : request -> fatx -> option (N * bytes).
+  Variable vary_tuple : request -> option (bytes * option bytes) -> tuple.
+  Variable vary_header : request -> option (bytes * option bytes) -> fatx -> list (bytes * bytes).
+  Variable clear_alias : request -> option request.
+  (** [Q p x]: [x] is an acceptable answer to keep for the path [p] *)
+  Variable Q : bytes -> fatx -> Prop.
+  Notation cf hs r ov ok := (fst (fst (compute hs r ov ok))).
+  Hypothesis HQ : forall hs r0,
+    let r := prime r0 in let ov := override r0 in let ok := sanitize_ok r0 in
+    may_store_x cache_on sfilter (rq_method r) (cf hs r ov ok) = true -> Q (rq_path (lookup_req r ov)) (cf hs r ov ok).
+
+  Notation finishR := (finishX fix_svary negotiate vary_header).
+  Notation missR := (missX hstate compute cache_on ims_on true fix_svary sfilter negotiate vary_tuple vary_header).
+  Notation serveR := (serveX hstate compute cache_on ims_on true true fix_svary fix_qmkey fix_ims sfilter parse_ims sanitize_ok
+                             prime override negotiate vary_tuple vary_header).
+  Notation stepR := (stepX hstate compute cache_on ims_on true true fix_clear fix_svary fix_qmkey fix_ims sfilter parse_ims
+                           sanitize_ok prime override negotiate vary_tuple vary_header clear_alias).
+  Notation runR := (runX hstate compute cache_on ims_on true true fix_clear fix_svary fix_qmkey fix_ims sfilter parse_ims
+                         sanitize_ok prime override negotiate vary_tuple vary_header clear_alias).
+
+  Definition QInv (c : cachex) : Prop :=
+    forall k e v, xc_find k c = Some e -> In v (ex_vars e) -> Q (key_path k) (v_resp v).
+  (** the reply to [r0]: 304, or made ([finishX]) from a response computed now or from a kept one *)
+  Definition answer_from (r0 : request) (rp : replyx) : Prop :=
+    let r := prime r0 in let ov := override r0 in let ok := sanitize_ok r0 in
+    rx_status rp = 304 \/
+    exists x lm ca ma, rp = finishR r ov x lm ca ma /\
+                       ((exists hs, x = cf hs r ov ok) \/ Q (rq_path (lookup_req r ov)) x).
+
+  Lemma QInv_nil : QInv [].
+  Proof. intros k e v H. discriminate. Qed.
+  Lemma QInv_remove k c : QInv c -> QInv (xc_remove k c).
+  Proof. intros H k0 e0 v. rewrite xc_find_remove. destruct (key_eqb k0 k); [discriminate|]. apply H. Qed.
+  Lemma QInv_insert k e c :
+    QInv c -> (forall v, In v (ex_vars e) -> Q (key_path k) (v_resp v)) -> QInv (xc_insert k e c).
+  Proof.
+    intros H He k0 e0 v. rewrite xc_find_insert. destruct (key_eqb k0 k) eqn:E.
+    - apply key_eqb_eq in E. subst k0. intros H0; inversion H0; subst. apply He.
+    - apply H.
+  Qed.
+  Lemma QInv_lookup lr c now k res c' :
+    xlookup lr c now = ((k, res), c') -> QInv c ->
+    QInv c' /\ key_path k = rq_path lr /\
+    (forall e, res = Some e -> forall v, In v (ex_vars e) -> Q (rq_path lr) (v_resp v)).
+  Proof.
+    intros L I. destruct (xlookup_cases _ _ _ _ _ _ L) as (Hk & Hc & Hres).
+    assert (Kp : key_path k = rq_path lr) by (destruct Hk as [-> | ->]; [apply key_path_pq | apply key_path_p]).
+    split; [|split; [exact Kp|]].
+    - intros k0 e0 v F. destruct (Hc k0) as [E | [E _]]; rewrite E in F; [eapply I; exact F | discriminate].
+    - intros e -> v Hin. destruct Hres as (F & _ & _). rewrite <- Kp. eapply I; eassumption.
+  Qed.
+
+  Lemma miss_answers c1 hs now r0 st' rp lg :
+    QInv c1 -> missR c1 hs now (prime r0) (override r0) (sanitize_ok r0) = (st', rp, lg) ->
+    QInv (fst st') /\ answer_from r0 rp.
+  Proof.
+    intros Hc. unfold missX. pose proof (HQ hs r0) as HS. cbv zeta in HS.
+    set (r := prime r0) in *. set (ov := override r0) in *. set (ok := sanitize_ok r0) in *.
+    destruct (compute hs r ov ok) as [[x hs'] lg'] eqn:Ec. cbn [fst] in HS.
+    assert (A : forall lm ca ma, answer_from r0 (finishR r ov x lm ca ma)).
+    { intros lm ca ma. right. exists x, lm, ca, ma. split; [reflexivity|]. left. exists hs. fold r ov ok. rewrite Ec. reflexivity. }
+    destruct (may_store_x cache_on sfilter (rq_method r) x) eqn:Em; intros H; inversion H; subst st' rp lg; cbn [fst].
+    - split; [|apply A].
+      apply QInv_insert; [exact Hc|]. cbn [ex_vars]. intros v [<- | []]. cbn [v_resp].
+      rewrite insert_key_path. apply HS. reflexivity.
+    - split; [exact Hc | apply A].
+  Qed.
+
+  Lemma serve_answers st now r0 st' rp lg :
+    QInv (fst st) -> serveR st now r0 = (st', rp, lg) -> QInv (fst st') /\ answer_from r0 rp.
+  Proof.
+    destruct st as [c hs]. cbn [fst]. intros Hc. unfold serveX.
+    pose proof (HQ hs r0) as HS. cbv zeta in HS.
+    set (r := prime r0) in *. set (ok := sanitize_ok r0) in *. set (ov := override r0) in *.
+    destruct (negb cache_on) eqn:Eon.
+    { destruct (compute hs r ov ok) as [[x hs'] lg'] eqn:Ec.
+      intros H; inversion H; subst st' rp lg. cbn [fst]. split; [exact Hc|].
+      right. exists x, false, false, true. split; [reflexivity|]. left. exists hs. fold r ov ok. rewrite Ec. reflexivity. }
+    destruct (xlookup (lookup_req r ov) c now) as [[k found] c1] eqn:El.
+    destruct (QInv_lookup _ _ _ _ _ _ El Hc) as (Hc1 & Kp & Hfound).
+    destruct found as [e|]; [|apply miss_answers; exact Hc1].
+    destruct (ok && get_or_head (rq_method r)); [|apply miss_answers; exact Hc1].
+    pose proof (Hfound e eq_refl) as Hq.
+    match goal with |- (if ?b then _ else _) = _ -> _ => destruct b end.
+    { intros H; inversion H; subst st' rp lg. cbn [fst]. split; [exact Hc1|]. left. reflexivity. }
+    destruct (xv_find (vary_tuple r ov) (ex_vars e)) as [v|] eqn:Ev.
+    { intros H; inversion H; subst st' rp lg. cbn [fst]. split; [exact Hc1|].
+      right. exists (v_resp v), ims_on, true, false. split; [reflexivity|]. right.
+      apply xv_find_in in Ev as [Ev _]. apply Hq, Ev. }
+    unfold vary_missingX.
+    destruct (compute hs r ov ok) as [[x hs'] lg'] eqn:Ec. cbn [fst] in HS.
+    assert (A : answer_from r0 (finishR r ov x ims_on true false)).
+    { right. exists x, ims_on, true, false. split; [reflexivity|]. left. exists hs. fold r ov ok. rewrite Ec. reflexivity. }
+    destruct (may_store_x cache_on sfilter (rq_method r) x && (negb fix_qmkey || qm_key_ok k x)) eqn:Ea;
+      intros H; inversion H; subst st' rp lg; cbn [fst]; (split; [|exact A]); [|exact Hc1].
+    apply andb_true_iff in Ea as [Ea _].
+    apply QInv_insert; [exact Hc1|]. cbn [ex_vars]. intros v [<- | Hin]; rewrite Kp.
+    - cbn [v_resp]. apply HS, Ea.
+    - apply Hq, Hin.
+  Qed.
+
+  Definition obs_ans (o : opx) (ob : obsx) : Prop :=
+    match o, ob with
+    | XReq r0, XbReply rp _ => answer_from r0 rp
+    | _, _ => True
+    end.
+
+  Lemma step_answers st now o st' now' ob :
+    QInv (fst st) -> stepR st now o = (st', now', ob) -> QInv (fst st') /\ obs_ans o ob.
+  Proof.
+    intros Hc. destruct o as [r|r| |ms]; cbn [stepX].
+    - destruct (serveR st now r) as [[st1 rp] lg] eqn:Es.
+      intros H; inversion H; subst. cbn [obs_ans]. eapply serve_answers; eassumption.
+    - destruct st as [c hs]. intros H; inversion H; subst. cbn [fst obs_ans]. split; [|exact I].
+      unfold xclear_page, xclear_uri. destruct (if fix_clear then clear_alias r else None); repeat apply QInv_remove; exact Hc.
+    - destruct st as [c hs]. intros H; inversion H; subst. cbn [fst obs_ans]. split; [apply QInv_nil|exact I].
+    - intros H; inversion H; subst. split; [exact Hc|exact I].
+  Qed.
+
+  Lemma run_answers ops : forall st now, QInv (fst st) -> Forall2 obs_ans ops (runR st now ops).
+  Proof.
+    induction ops as [|o ops IH]; intros st now Hc; cbn [runX]; [constructor|].
+    destruct (stepR st now o) as [[st' now'] ob] eqn:Es.
+    destruct (step_answers _ _ _ _ _ _ Hc Es) as [Hc' Hob].
+    constructor; [exact Hob|]. apply IH. exact Hc'.
+  Qed.
+End CacheAnswers.
+
+(** ---------------------------------------------------------------------------
+    "the answer is the host's 404", above the cache, for every history. *)
+Lemma first_tmpl_none es : has_name N_TMPL es = false -> first_tmpl es = None.
+Proof.
+  unfold first_tmpl. induction es as [|e es IH]; [reflexivity|]. cbn [has_name existsb find].
+  intros H. apply orb_false_iff in H as [H1 H2]. rewrite H1. apply IH, H2.
+Qed.
+Lemma unlisted_has_allow addr es : listed addr es = false -> has_name N_ALLOW es = true.
+Proof.
+  induction es as [|e es IH]; cbn [listed forallb has_name existsb]; [discriminate|].
+  intros H. apply andb_false_iff in H as [H|H].
+  - destruct (beq (fst e) N_ALLOW); [reflexivity | discriminate].
+  - apply orb_true_iff. right. apply IH, H.
+Qed.
+
+Definition INTERNAL : bytes := Eval vm_compute in B "/./".
+(** a request that has to be refused: it passes sanitize, no Prime extension overrides its URI, its (rewritten)
+    path is not an internal one and names a readable file that is hidden / private, or marked [allow-ips]
+    without listing the client's address (the file's line has no [tmpl] directive) *)
+Definition refused (fs : bytes -> option bytes) (prime : request -> request)
+           (override : request -> option (bytes * option bytes)) (r0 : request) : Prop :=
+  sanitize_ok_g r0 = true /\ override r0 = None /\
+  let r := prime r0 in
+  starts_with INTERNAL (rq_path r) = false /\ get_or_head (rq_method r) = true /\
+  exists t c, served_file (rq_path r) = Ok (Some t) /\ fs t = Some c /\ has_name N_TMPL (entries_of c) = false /\
+              (is_hidden t c = true \/ listed (rq_addr r) (entries_of c) = false).
+(** the host's 404 — or Not Modified for a conditional request when that 404 is in the cache, or 406 when the
+    client accepts no representation of it *)
+Definition reply_404 (errpage : N -> bytes) (rp : replyx) : Prop :=
+  rx_status rp = 304 \/ rx_status rp = 406 \/
+  (rx_status rp = 404 /\ rx_body rp = host_404_body errpage /\ rx_identity rp = host_404_body errpage).
+Definition refused_ok (fs : bytes -> option bytes) (errpage : N -> bytes) (prime : request -> request)
+           (override : request -> option (bytes * option bytes)) (o : opx) (ob : obsx) : Prop :=
+  match o, ob with
+  | XReq r0, XbReply rp _ => refused fs prime override r0 -> reply_404 errpage rp
+  | _, _ => True
+  end.
+
+Section Refused.
+  Variable cors : bool.
+  Variable fs : bytes -> option bytes.
+  Variable errpage : N -> bytes.
+  Variable tmpl : list bytes -> bytes -> bytes.
+  Variable sfilter : N -> bool.
+  Variable prime : request -> request.
+  Variable override : request -> option (bytes * option bytes).
+  (** no error page is a template *)
+  Hypothesis Hnt : forall s, has_name N_TMPL (entries_of (errpage s)) = false.
+  (** the host's status filter keeps 400 and 416 out of the cache (the default filter does) *)
+  Hypothesis Hsf : sfilter 400 = true /\ sfilter 416 = true.
+  (** the URIs Prime extensions answer with are internal ones *)
+  Hypothesis Hov : forall r0 p q, override r0 = Some (p, q) -> starts_with INTERNAL p = true.
+
+  Notation H404 := (host_404_body errpage).
+  Notation LB := (layer_b true true true cors fs errpage tmpl).
+  Notation stepv := (step true true errpage tmpl).
+  Notation is404v := (is404 errpage).
+
+  Lemma Hnt404 : first_tmpl (entries_of (errpage 404)) = None.
+  Proof. apply first_tmpl_none, Hnt. Qed.
+
+  Lemma fold_404_or_status addr es st :
+    no_tmpl es -> is404v (fold_left (stepv addr) es st) \/ ps_status (fold_left (stepv addr) es st) = ps_status st.
+  Proof.
+    revert st; induction es as [|e es IH]; intros st Hn; cbn [fold_left]; [right; reflexivity|].
+    inversion Hn as [|? ? Hne Hn']; subst.
+    destruct (step_shape true errpage tmpl addr st e) as [[_ E]|[[_ E]|(_ & _ & _ & Es & _)]].
+    - left. rewrite E. apply is404_fold; [exact Hnt404 | exact Hn' | apply is404_hide, Hnt404].
+    - rewrite E. unfold do_allow. destruct (existsb (arg_matches addr) (snd e)).
+      + destruct (IH (mkP (ps_status st) (ps_headers st) (ps_body st) SP_NONE CChanging true) Hn') as [H|H]; [left; exact H | right; exact H].
+      + left. apply is404_fold; [exact Hnt404 | exact Hn' |]. split; [reflexivity|]. cbn [ps_body to_error]. apply allow_body_404.
+    - destruct (IH (stepv addr st e) Hn') as [H|H]; [left; exact H | right; congruence].
+  Qed.
+
+  (** the answer to a request that fails sanitize, for any path: the 400 / 416 page, or the host's 404 *)
+  Lemma sanitize_answer r ov :
+    (f_status (LB r ov false) = 404 /\ f_body (LB r ov false) = H404) \/
+    f_status (LB r ov false) = 400 \/ f_status (LB r ov false) = 416.
+  Proof.
+    unfold layer_b, base. cbn [negb].
+    set (code := match PathSan.sanitize_path (rq_path r) with Ok _ => 416 | _ => 400 end).
+    assert (Hcode : code = 400 \/ code = 416) by (unfold code; destruct (PathSan.sanitize_path (rq_path r)); auto).
+    unfold present. cbn [ps_body err_pst].
+    pose proof (Hnt code) as Hn. rewrite entries_of_line in Hn.
+    assert (G : forall st : pst, is404v st -> (f_status (fat_of st) = 404 /\ f_body (fat_of st) = H404) \/
+                                              f_status (fat_of st) = 400 \/ f_status (fat_of st) = 416)
+      by (intros st [A B0]; left; split; assumption).
+    destruct (line_of (errpage code)) as [p|].
+    - apply no_tmpl_b in Hn.
+      destruct (private_hit true (rq_path r)).
+      + apply G. apply is404_fold; [exact Hnt404 | exact Hn | apply is404_hide, Hnt404].
+      + match goal with |- context [fold_left ?f ?es ?st] => destruct (fold_404_or_status (rq_addr r) es st Hn) as [H|H] end.
+        * apply G, H.
+        * right. cbn [f_status fat_of]. rewrite H. cbn [ps_status]. destruct Hcode as [-> | ->]; auto.
+    - cbn [fold_left]. destruct (private_hit true (rq_path r)); [apply G, is404_hide, Hnt404|].
+      right. cbn [f_status fat_of ps_status err_pst]. destruct Hcode as [-> | ->]; auto.
+  Qed.
+
+  (** a path under which only the host's 404 may be kept *)
+  Definition guarded_path (p : bytes) : Prop :=
+    starts_with INTERNAL p = false /\
+    exists t c, served_file p = Ok (Some t) /\ fs t = Some c /\ has_name N_TMPL (entries_of c) = false /\ guarded t c = true.
+  Definition Q404 (p : bytes) (x : fatx) : Prop :=
+    guarded_path p -> f_status (fx_fat x) = 404 /\ f_body (fx_fat x) = H404.
+
+  Lemma stored_is_404 cache_on hs r0 :
+    let r := prime r0 in let ov := override r0 in let ok := sanitize_ok_g r0 in
+    may_store_x cache_on sfilter (rq_method r) (fst (fst (compute_g true true true cors fs errpage tmpl hs r ov ok))) = true ->
+    Q404 (rq_path (lookup_req r ov)) (fst (fst (compute_g true true true cors fs errpage tmpl hs r ov ok))).
+  Proof.
+    cbv zeta. cbn [compute_g fst]. intros Hs [Hint (t & c & Es & Ef & Hntc & Hg)].
+    cbn [fx_fat plain].
+    unfold may_store_x, wants_cache_x in Hs. cbn [fx_fat plain is_stream fx_stream negb andb] in Hs.
+    apply andb_true_iff in Hs as [Hs _]. apply andb_true_iff in Hs as [Hs _].
+    apply andb_true_iff in Hs as [Hs Hgh]. apply andb_true_iff in Hs as [Hs Hsf'].
+    apply andb_true_iff in Hs as [_ Hpc].
+    destruct (override r0) as [[p' q']|] eqn:Eov.
+    { cbn [lookup_req rq_path] in Hint. rewrite (Hov _ _ _ Eov) in Hint. discriminate. }
+    cbn [lookup_req] in *.
+    destruct (sanitize_ok_g r0).
+    - unfold guarded in Hg. destruct (is_hidden t c) eqn:Eh.
+      + apply (guarded_answer_is_404_lemma cors fs errpage tmpl Hnt404 (prime r0) None t c Es Ef Hgh (andb_false_r _) Hntc).
+        left. exact Eh.
+      + cbn [orb] in Hg. exfalso.
+        rewrite (allow_ips_spref_none true errpage tmpl cors fs (prime r0) None t c Es Ef Eh Hg Hgh) in Hpc by (apply andb_false_r).
+        discriminate.
+    - destruct (sanitize_answer (prime r0) None) as [H | [H | H]]; [exact H | |]; rewrite H in Hsf'; destruct Hsf as [S1 S2];
+        [rewrite S1 in Hsf' | rewrite S2 in Hsf']; discriminate.
+  Qed.
+
+  Lemma refused_reply_is_404_lemma :
+    forall cache_on ims_on fix_clear fix_svary fix_qmkey fix_ims parse_ims refuses vary_tuple vary_header clear_alias now ops,
+      Forall2 (refused_ok fs errpage prime override) ops
+        (run_g true true true cors fs errpage tmpl cache_on ims_on true fix_clear fix_svary fix_qmkey fix_ims
+               sfilter parse_ims prime override refuses vary_tuple vary_header clear_alias [] now ops).
+  Proof.
+    intros. unfold run_g.
+    pose proof (run_answers unit (compute_g true true true cors fs errpage tmpl) cache_on ims_on
+                  fix_clear fix_svary fix_qmkey fix_ims sfilter parse_ims sanitize_ok_g prime override
+                  (negotiate_g errpage refuses) vary_tuple vary_header clear_alias Q404
+                  (stored_is_404 cache_on) ops ([], tt) now (QInv_nil Q404)) as Hall.
+    eapply Forall2_mono; [|exact Hall]. intros o ob Ho.
+    destruct o as [r0|r0| |ms], ob as [rp lg| |]; cbn [refused_ok obs_ans] in *; auto.
+    intros (Hok & Hovn & Hint & Hgh & t & c & Es & Ef & Hntc & Hcase).
+    unfold answer_from in Ho. rewrite Hok, Hovn in Ho. cbn [lookup_req] in Ho.
+    destruct Ho as [H304 | (x & lm & ca & ma & -> & Hx)]; [left; exact H304|].
+    assert (Hx404 : f_status (fx_fat x) = 404 /\ f_body (fx_fat x) = H404).
+    { destruct Hx as [[hs ->] | Hq].
+      - cbn [compute_g fst fx_fat plain].
+        apply (guarded_answer_is_404_lemma cors fs errpage tmpl Hnt404 (prime r0) None t c Es Ef Hgh (andb_false_r _) Hntc Hcase).
+      - apply Hq. split; [exact Hint|]. exists t, c. repeat split; auto.
+        unfold guarded. destruct Hcase as [Hh | Hl]; [rewrite Hh; reflexivity|].
+        apply unlisted_has_allow in Hl. unfold is_allow_ips. rewrite Hl. apply orb_true_r. }
+    destruct Hx404 as [S Bd]. unfold finishX, negotiate_g.
+    destruct (is_stream x).
+    - right; right. cbn [rx_status rx_body rx_identity]. auto.
+    - destruct (refuses (prime r0) x); cbn [rx_status rx_body rx_identity]; [right; left; reflexivity | right; right; auto].
+  Qed.
+End Refused.
+
+(** ---------------------------------------------------------------------------
+    The cache layer looks at the layer below only through its results. *)
+Section RunExt.
+  Variable hstate : Type.
+  Variable compute1 compute2 : hstate -> request -> option (bytes * option bytes) -> bool -> fatx * hstate * list bytes.
+  Hypothesis Hext : forall hs r ov ok, compute1 hs r ov ok = compute2 hs r ov ok.
+  Variable cache_on ims_on fix_vary fix_ovkey fix_clear fix_svary fix_qmkey fix_ims : bool.
+  Variable sfilter : N -> bool.
+  Variable parse_ims : bytes -> option Z.
+  Variable sanitize_ok : request -> bool.
+  Variable prime : request -> request.
+  Variable override : request -> option (bytes * option bytes).
+  Variable negotiate : request -> fatx -> option (N * bytes).
+  Variable vary_tuple : request -> option (bytes * option bytes) -> tuple.
+  Variable vary_header : request -> option (bytes * option bytes) -> fatx -> list (bytes * bytes).
+  Variable clear_alias : request -> option request.
+
+  Lemma missX_ext c1 hs now r ov ok :
+    missX hstate compute1 cache_on ims_on fix_ovkey fix_svary sfilter negotiate vary_tuple vary_header c1 hs now r ov ok =
+    missX hstate compute2 cache_on ims_on fix_ovkey fix_svary sfilter negotiate vary_tuple vary_header c1 hs now r ov ok.
+  Proof. unfold missX. rewrite Hext. reflexivity. Qed.
+  Lemma vary_missingX_ext c1 hs now r ov ok k e :
+    vary_missingX hstate compute1 cache_on ims_on fix_vary fix_svary fix_qmkey sfilter negotiate vary_tuple vary_header c1 hs now r ov ok k e =
+    vary_missingX hstate compute2 cache_on ims_on fix_vary fix_svary fix_qmkey sfilter negotiate vary_tuple vary_header c1 hs now r ov ok k e.
+  Proof. unfold vary_missingX. rewrite Hext. reflexivity. Qed.
+  Lemma serveX_ext st now r0 :
+    serveX hstate compute1 cache_on ims_on fix_vary fix_ovkey fix_svary fix_qmkey fix_ims sfilter parse_ims sanitize_ok prime override
+           negotiate vary_tuple vary_header st now r0 =
+    serveX hstate compute2 cache_on ims_on fix_vary fix_ovkey fix_svary fix_qmkey fix_ims sfilter parse_ims sanitize_ok prime override
+           negotiate vary_tuple vary_header st now r0.
+  Proof.
+    unfold serveX. destruct st as [c hs].
+    destruct (negb cache_on); [rewrite Hext; reflexivity|].
+    destruct (xlookup (lookup_req (prime r0) (override r0)) c now) as [[k found] c1].
+    destruct found as [e|]; [|apply missX_ext].
+    destruct (sanitize_ok r0 && get_or_head (rq_method (prime r0))); [|apply missX_ext].
+    match goal with |- (if ?b then _ else _) = _ => destruct b; [reflexivity|] end.
+    destruct (xv_find _ _); [reflexivity | apply vary_missingX_ext].
+  Qed.
+  Lemma runX_ext ops : forall st now,
+    runX hstate compute1 cache_on ims_on fix_vary fix_ovkey fix_clear fix_svary fix_qmkey fix_ims sfilter parse_ims sanitize_ok prime
+         override negotiate vary_tuple vary_header clear_alias st now ops =
+    runX hstate compute2 cache_on ims_on fix_vary fix_ovkey fix_clear fix_svary fix_qmkey fix_ims sfilter parse_ims sanitize_ok prime
+         override negotiate vary_tuple vary_header clear_alias st now ops.
+  Proof.
+    induction ops as [|o ops IH]; intros st now; cbn [runX]; [reflexivity|].
+    assert (E : stepX hstate compute1 cache_on ims_on fix_vary fix_ovkey fix_clear fix_svary fix_qmkey fix_ims sfilter parse_ims
+                      sanitize_ok prime override negotiate vary_tuple vary_header clear_alias st now o =
+                stepX hstate compute2 cache_on ims_on fix_vary fix_ovkey fix_clear fix_svary fix_qmkey fix_ims sfilter parse_ims
+                      sanitize_ok prime override negotiate vary_tuple vary_header clear_alias st now o).
+    { destruct o; cbn [stepX]; [rewrite serveX_ext|..]; reflexivity. }
+    rewrite E. destruct (stepX _ compute2 _ _ _ _ _ _ _ _ _ _ _ _ _ _ _ _ _ st now o) as [[st' now'] ob].
+    rewrite IH. reflexivity.
+  Qed.
+End RunExt.
+
+(** ---------------------------------------------------------------------------
+    No history tells whether a hidden file exists: a file that is hidden / private and whose [!> ] line carries
+    nothing but [hide] (and names that are not mounted) can be removed without changing any observation
+    (status, headers, bodies, last-modified, whether the reply came from the cache), on a host whose error
+    pages carry no [!> ] line. *)
+Definition neutral_name (n : bytes) : bool :=
+  negb (beq n N_HIDE || beq n N_ALLOW || beq n N_CACHE || beq n N_DOWNLOAD || beq n N_TMPL).
+Definition plain_hidden (t c : bytes) : Prop :=
+  is_hidden t c = true /\ forallb (fun e => beq (fst e) N_HIDE || neutral_name (fst e)) (entries_of c) = true.
+
+Section Indistinguishable.
+  Variable cors : bool.
+  Variable fs fs' : bytes -> option bytes.
+  Variable errpage : N -> bytes.
+  Variable tmpl : list bytes -> bytes -> bytes.
+  Hypothesis Herr_plain : forall s, line_of (errpage s) = None.
+  (** [fs'] is [fs] without some plainly hidden files *)
+  Hypothesis Hfs' : forall x, fs' x = fs x \/ (fs' x = None /\ exists c, fs x = Some c /\ plain_hidden x c).
+
+  Notation E404 := (err_pst errpage 404 SP_FULL).
+  Notation stepv := (step true true errpage tmpl).
+
+  Lemma hide_plain st : ps_spref st = SP_FULL -> ps_cpref st = CFull -> do_hide true errpage tmpl st = E404.
+  Proof.
+    intros H1 H2. unfold do_hide, to_error, err_pst, error_body_hide. rewrite Herr_plain, H1, H2. reflexivity.
+  Qed.
+
+  Lemma fold_plain addr es st :
+    forallb (fun e => beq (fst e) N_HIDE || neutral_name (fst e)) es = true ->
+    ps_spref st = SP_FULL -> ps_cpref st = CFull ->
+    fold_left (stepv addr) es st = if has_name N_HIDE es then E404 else st.
+  Proof.
+    revert st; induction es as [|[name args] es IH]; intros st Ha H1 H2; cbn [fold_left has_name existsb forallb fst] in *; [reflexivity|].
+    apply andb_true_iff in Ha as [Ha Hr]. unfold has_name in IH.
+    destruct (beq name N_HIDE) eqn:Eh; cbn [orb] in *.
+    - assert (Est : stepv addr st (name, args) = E404) by (unfold step; rewrite Eh; apply hide_plain; assumption).
+      rewrite Est, (IH E404 Hr eq_refl eq_refl).
+      destruct (existsb _ es); reflexivity.
+    - unfold neutral_name in Ha. rewrite Eh in Ha. cbn [orb] in Ha. apply negb_true_iff in Ha.
+      apply orb_false_iff in Ha as [Ha E5]. apply orb_false_iff in Ha as [Ha E4]. apply orb_false_iff in Ha as [E2 E3].
+      assert (Est : stepv addr st (name, args) = st) by (unfold step; rewrite Eh, E2, E3, E4, E5; reflexivity).
+      rewrite Est. apply IH; assumption.
+  Qed.
+
+  Lemma present_err404 r : present true true true errpage tmpl r E404 = E404.
+  Proof.
+    unfold present. cbn [ps_body err_pst]. rewrite Herr_plain. cbn [fold_left].
+    destruct (private_hit true (rq_path r)); [apply hide_plain; reflexivity | reflexivity].
+  Qed.
+
+  (** a plainly hidden file is answered exactly as a missing one *)
+  Lemma present_plain_hidden r t c :
+    served_file (rq_path r) = Ok (Some t) -> plain_hidden t c ->
+    present true true true errpage tmpl r (file_pst c) = E404.
+  Proof.
+    intros Es [Hh Hp]. pose proof (private_hit_served _ _ Es) as Hpr.
+    unfold present. cbn [ps_body file_pst]. unfold is_hidden in Hh. rewrite <- Hpr in Hh.
+    rewrite entries_of_line in Hh, Hp.
+    destruct (line_of c) as [p|].
+    - cbn [ps_status ps_headers ps_spref ps_cpref ps_locked file_pst].
+      destruct (private_hit true (rq_path r)).
+      + rewrite hide_plain by reflexivity. rewrite fold_plain by (assumption || reflexivity).
+        destruct (has_name N_HIDE (PresentLine.p_entries p)); reflexivity.
+      + cbn [orb] in Hh. rewrite fold_plain by (assumption || reflexivity). rewrite Hh. reflexivity.
+    - cbn [fold_left]. destruct (private_hit true (rq_path r)); [apply hide_plain; reflexivity|].
+      cbn in Hh. discriminate.
+  Qed.
+
+  Lemma layer_b_same r ov ok :
+    layer_b true true true cors fs errpage tmpl r ov ok = layer_b true true true cors fs' errpage tmpl r ov ok.
+  Proof.
+    unfold layer_b, base. destruct (negb ok); [reflexivity|].
+    destruct (served_file (rq_path r)) as [[t|]|e|] eqn:Es; try reflexivity.
+    destruct (cors && is_cors_fail ov); [reflexivity|].
+    destruct (get_or_head (rq_method r)); [|reflexivity].
+    destruct (Hfs' t) as [E | [E (c & Ec & Hp)]]; rewrite E; [reflexivity|]. rewrite Ec.
+    rewrite (present_plain_hidden r t c Es Hp), present_err404. reflexivity.
+  Qed.
+
+  Lemma hidden_file_indistinguishable_lemma :
+    forall cache_on ims_on fix_ovkey fix_clear fix_svary fix_qmkey fix_ims sfilter parse_ims prime override refuses
+           vary_tuple vary_header clear_alias c now ops,
+      run_g true true true cors fs errpage tmpl cache_on ims_on fix_ovkey fix_clear fix_svary fix_qmkey fix_ims
+            sfilter parse_ims prime override refuses vary_tuple vary_header clear_alias c now ops =
+      run_g true true true cors fs' errpage tmpl cache_on ims_on fix_ovkey fix_clear fix_svary fix_qmkey fix_ims
+            sfilter parse_ims prime override refuses vary_tuple vary_header clear_alias c now ops.
+  Proof.
+    intros. unfold run_g. apply runX_ext. intros hs r ov ok. unfold compute_g. rewrite layer_b_same. reflexivity.
+  Qed.
+End Indistinguishable.
+
+(** ---------------------------------------------------------------------------
+    The code before the repair of this property's third defect ([fix_errline = false]): on a host whose
+    [errors/404.html] starts with a [!> ] line, the answer for a private file carries that line while the
+    answer for a path that does not exist does not - the two are told apart.  With the repair they are equal. *)
+Definition w_err_line (s : N) : bytes :=
+  Eval vm_compute in B "!> cache client:none" ++ [10] ++ B "<html>nothing here</html>".
+Definition w_bodies (obs : list obsx) : list (N * bytes) :=
+  map (fun ob => match ob with XbReply rp _ => (rx_status rp, rx_body rp) | _ => (0, []) end) obs.
+Definition w_twins : list opx := [w_get (B "/secret.private") 2; w_get (B "/nothing-here") 2; w_get (B "/ac.txt") 2].
+Lemma error_page_line_v0_refuted_lemma :
+  exists b1 b2 b3, w_bodies (w_run_err w_err_line true true false true w_twins) = [(404, b1); (404, b2); (404, b3)] /\
+                   b1 <> b2 /\ b3 <> b2.
+Proof. eexists. eexists. eexists. split; [vm_compute; reflexivity|]. split; discriminate. Qed.
+Lemma error_page_line_repaired_lemma :
+  w_bodies (w_run_err w_err_line true true true true w_twins) =
+    [(404, host_404_body w_err_line); (404, host_404_body w_err_line); (404, host_404_body w_err_line)].
+Proof. vm_compute. reflexivity. Qed.
+
+(** KNOWN class allow-ips-404-template-unrendered: on a host whose [errors/404.html] is a [!> tmpl] template, [hide]
+    renders the page but [allow-ips] puts it in place as it is.  For a file that is hidden AND carries an
+    [allow-ips] directive after the [hide], the answer to an unlisted client is then not the host's 404
+    ([refused_reply_is_404] has the hypothesis that no error page is a template). *)
+Definition w_err_tmpl (s : N) : bytes := Eval vm_compute in B "!> tmpl page" ++ [10] ++ B "<html>$[title]</html>".
+Definition w_render (args : list bytes) (b : bytes) : bytes := B "rendered " ++ b.
+Definition w_both_twins : list opx := [w_get (B "/both.txt") 2; w_get (B "/nothing-here") 2; w_get (B "/h.txt") 2].
+Lemma allow_404_template_refuted_lemma :
+  exists b1 b2, w_bodies (w_run_gen w_err_tmpl w_render true true true true w_both_twins) = [(404, b1); (404, b2); (404, b2)] /\ b1 <> b2.
+Proof. eexists. eexists. split; [vm_compute; reflexivity | discriminate]. Qed.
+
+(** KNOWN class tmpl-names-guarded-file: the concrete template engine (Model/Templates.v over the fixture tree) on a
+    host where the PUBLIC page [t.html] names [../public/s.private] as its template file: every client receives the
+    [$[x]] block of the private file (the hypothesis "templates introduce no guarded content" of
+    [guarded_content_confined] fails there). *)
+Definition w_tmpl_files : list (bytes * bytes) :=
+  Eval vm_compute in
+  [ (B "public/s.private", B "$[x]" ++ [10] ++ B "SECRET-7f3a in a block of a private file" ++ [10] ++ B "$[y]" ++ [10] ++ B "more");
+    (B "public/t.html", B "!> tmpl ../public/s.private" ++ [10] ++ B "<html>public page: $[x]</html>");
+    (B "templates/main", B "$[title]" ++ [10] ++ B "a template" ++ [10]) ].
+Definition w_tmpl_cfg : gconfig := mkG true false true w_tmpl_files [] [] 500 true [].
+Lemma tmpl_names_guarded_file_refuted_lemma :
+  violates (fs_of_tree (tree_of w_tmpl_files)) W_SECRET [w_get (B "/t.html") 2]
+           (run_gcfg true true true w_tmpl_cfg [w_get (B "/t.html") 2]).
+Proof.
+  exists 0%nat. eexists. eexists. eexists.
+  split; [reflexivity|]. split; [vm_compute; reflexivity|].
+  split; [vm_compute; reflexivity|]. apply permitted_b_false. vm_compute. reflexivity.
+Qed.
+
+(** ---------------------------------------------------------------------------
+    The file cache.  What the layer below the cache computes depends on the files only through what the reads
+    return ... *)
+Section LayerExt.
+  Variable fix_ext fix_lock fix_errline cors : bool.
+  Variable fs1 fs2 : bytes -> option bytes.
+  Variable err1 err2 : N -> bytes.
+  Variable tm1 tm2 : list bytes -> bytes -> bytes.
+  Hypothesis Hfs : forall t, fs1 t = fs2 t.
+  Hypothesis Herr : forall c, err1 c = err2 c.
+  Hypothesis Htm : forall a b, tm1 a b = tm2 a b.
+
+  Lemma error_body_allow_ext code : error_body_allow fix_errline err1 code = error_body_allow fix_errline err2 code.
+  Proof. unfold error_body_allow. rewrite Herr. reflexivity. Qed.
+  Lemma error_body_hide_ext code : error_body_hide fix_errline err1 tm1 code = error_body_hide fix_errline err2 tm2 code.
+  Proof.
+    unfold error_body_hide. rewrite Herr. destruct (line_of (err2 code)) as [p|]; [|reflexivity].
+    destruct (first_tmpl (PresentLine.p_entries p)); [apply Htm | reflexivity].
+  Qed.
+  Lemma step_ext addr st e : step fix_lock fix_errline err1 tm1 addr st e = step fix_lock fix_errline err2 tm2 addr st e.
+  Proof.
+    destruct e as [name args]. unfold step, do_hide, do_allow, do_tmpl.
+    rewrite error_body_hide_ext, error_body_allow_ext, Htm. reflexivity.
+  Qed.
+  Lemma fold_step_ext addr es : forall st,
+    fold_left (step fix_lock fix_errline err1 tm1 addr) es st = fold_left (step fix_lock fix_errline err2 tm2 addr) es st.
+  Proof. induction es as [|e es IH]; intros st; cbn [fold_left]; [reflexivity|]. rewrite step_ext. apply IH. Qed.
+  Lemma present_ext r st :
+    present fix_ext fix_lock fix_errline err1 tm1 r st = present fix_ext fix_lock fix_errline err2 tm2 r st.
+  Proof. unfold present, do_hide. rewrite error_body_hide_ext. apply fold_step_ext. Qed.
+  Lemma layer_b_ext r ov ok :
+    layer_b fix_ext fix_lock fix_errline cors fs1 err1 tm1 r ov ok = layer_b fix_ext fix_lock fix_errline cors fs2 err2 tm2 r ov ok.
+  Proof.
+    unfold layer_b, base, err_pst. rewrite !Herr.
+    destruct (negb ok); [rewrite present_ext; reflexivity|].
+    destruct (served_file (rq_path r)) as [[t|]|e|]; try reflexivity.
+    - rewrite Hfs. destruct (cors && is_cors_fail ov); [rewrite present_ext; reflexivity|].
+      destruct (get_or_head (rq_method r)); [|rewrite present_ext; reflexivity].
+      destruct (fs2 t); rewrite present_ext; reflexivity.
+    - destruct (cors && is_cors_fail ov); rewrite present_ext; reflexivity.
+  Qed.
+End LayerExt.
+
+(** ... the template engine looks at the template files only through what the reads return ... *)
+Section TmplExt.
+  Variable rd1 rd2 : bytes -> option bytes.
+  Hypothesis Hrd : forall p, rd1 p = rd2 p.
+  Lemma resolve_template_ext files name : resolve_template rd1 files name = resolve_template rd2 files name.
+  Proof.
+    induction files as [|f rest IH]; cbn [resolve_template]; [reflexivity|]. rewrite Hrd.
+    destruct (rd2 (TEMPLATES_SLASH ++ f)); [|exact IH].
+    destruct (Templates.extract_templates false b) as [m|e|]; cbn [obind]; try reflexivity.
+    destruct (Templates.t_get name m); [reflexivity | exact IH].
+  Qed.
+  Lemma h_loop_ext (l1 l2 : bytes -> outcome (option bytes)) (Hl : forall k, l1 k = l2 k) file rest : forall pos st,
+    Templates.h_loop l1 file rest pos st = Templates.h_loop l2 file rest pos st.
+  Proof.
+    induction rest as [|byte r IH]; intros pos st; cbn [Templates.h_loop]; [reflexivity|].
+    assert (E : Templates.h_step l1 file pos byte st = Templates.h_step l2 file pos byte st).
+    { unfold Templates.h_step. destruct (Templates.h_placeholder st); [|reflexivity].
+      destruct (negb (Templates.h_esc st =? 1) && (byte =? Templates.c_close)); [|reflexivity].
+      destruct (Templates.placeholder_key file (Templates.h_ps st) pos) as [[k|]|e|]; cbn [obind]; try reflexivity.
+      rewrite Hl. reflexivity. }
+    rewrite E. destruct (Templates.h_step l2 file pos byte st) as [st'|e|]; cbn [obind]; [apply IH | reflexivity | reflexivity].
+  Qed.
+  Lemma tmpl_of_ext args body : tmpl_of rd1 args body = tmpl_of rd2 args body.
+  Proof.
+    unfold tmpl_of, Templates.handle_template.
+    destruct (Templates.skip_ignore_line body) as [file|e|]; cbn [obind]; try reflexivity.
+    rewrite (h_loop_ext (resolve_template rd1 (rev args)) (resolve_template rd2 (rev args)) (resolve_template_ext (rev args))).
+    reflexivity.
+  Qed.
+End TmplExt.
+
+(** ... and filling the file cache from the disk does not change what a read returns. *)
+Lemma fc_fill1_view on disk fc p q : fc_view on disk (fc_fill1 on disk fc p) q = fc_view on disk fc q.
+Proof.
+  unfold fc_fill1, fc_view. destruct on; [|reflexivity].
+  destruct (fc_find p fc) eqn:F; [reflexivity|]. cbn [fc_find].
+  destruct (beq q p) eqn:E; [|reflexivity]. apply beq_eq in E. subst q. rewrite F. reflexivity.
+Qed.
+Lemma fc_fill_view on disk ps : forall fc q, fc_view on disk (fc_fill on disk fc ps) q = fc_view on disk fc q.
+Proof.
+  unfold fc_fill. induction ps as [|p ps IH]; intros fc q; cbn [fold_left]; [reflexivity|].
+  rewrite IH. apply fc_fill1_view.
+Qed.
+
+(** two layers below the same cache that stay in a relation [R] of their states and answer alike *)
+Section RunSim.
+  Variable S1 S2 : Type.
+  Variable compute1 : S1 -> request -> option (bytes * option bytes) -> bool -> fatx * S1 * list bytes.
+  Variable compute2 : S2 -> request -> option (bytes * option bytes) -> bool -> fatx * S2 * list bytes.
+  Variable R : S1 -> S2 -> Prop.
+  Hypothesis Hsim : forall h1 h2 r ov ok, R h1 h2 ->
+    fst (fst (compute1 h1 r ov ok)) = fst (fst (compute2 h2 r ov ok)) /\
+    snd (compute1 h1 r ov ok) = snd (compute2 h2 r ov ok) /\
+    R (snd (fst (compute1 h1 r ov ok))) (snd (fst (compute2 h2 r ov ok))).
+  Variable cache_on ims_on fix_vary fix_ovkey fix_clear fix_svary fix_qmkey fix_ims : bool.
+  Variable sfilter : N -> bool.
+  Variable parse_ims : bytes -> option Z.
+  Variable sanitize_ok : request -> bool.
+  Variable prime : request -> request.
+  Variable override : request -> option (bytes * option bytes).
+  Variable negotiate : request -> fatx -> option (N * bytes).
+  Variable vary_tuple : request -> option (bytes * option bytes) -> tuple.
+  Variable vary_header : request -> option (bytes * option bytes) -> fatx -> list (bytes * bytes).
+  Variable clear_alias : request -> option request.
+
+  (** same cache, same reply, same log, related states *)
+  Definition sim3 (a : (cachex * S1) * replyx * list bytes) (b : (cachex * S2) * replyx * list bytes) : Prop :=
+    fst (fst (fst a)) = fst (fst (fst b)) /\ snd (fst a) = snd (fst b) /\ snd a = snd b /\ R (snd (fst (fst a))) (snd (fst (fst b))).
+
+  Lemma missX_sim c1 h1 h2 now r ov ok : R h1 h2 ->
+    sim3 (missX S1 compute1 cache_on ims_on fix_ovkey fix_svary sfilter negotiate vary_tuple vary_header c1 h1 now r ov ok)
+         (missX S2 compute2 cache_on ims_on fix_ovkey fix_svary sfilter negotiate vary_tuple vary_header c1 h2 now r ov ok).
+  Proof.
+    intros HR. unfold missX. destruct (Hsim h1 h2 r ov ok HR) as (E1 & E2 & E3).
+    destruct (compute1 h1 r ov ok) as [[x1 h1'] lg1]. destruct (compute2 h2 r ov ok) as [[x2 h2'] lg2].
+    cbn [fst snd] in *. subst x2 lg2.
+    destruct (may_store_x cache_on sfilter (rq_method r) x1); unfold sim3; cbn [fst snd]; auto.
+  Qed.
+  Lemma vary_missingX_sim c1 h1 h2 now r ov ok k e : R h1 h2 ->
+    sim3 (vary_missingX S1 compute1 cache_on ims_on fix_vary fix_svary fix_qmkey sfilter negotiate vary_tuple vary_header c1 h1 now r ov ok k e)
+         (vary_missingX S2 compute2 cache_on ims_on fix_vary fix_svary fix_qmkey sfilter negotiate vary_tuple vary_header c1 h2 now r ov ok k e).
+  Proof.
+    intros HR. unfold vary_missingX. destruct (Hsim h1 h2 r ov ok HR) as (E1 & E2 & E3).
+    destruct (compute1 h1 r ov ok) as [[x1 h1'] lg1]. destruct (compute2 h2 r ov ok) as [[x2 h2'] lg2].
+    cbn [fst snd] in *. subst x2 lg2.
+    destruct fix_vary; [destruct (may_store_x cache_on sfilter (rq_method r) x1 && (negb fix_qmkey || qm_key_ok k x1))|];
+      unfold sim3; cbn [fst snd]; auto.
+  Qed.
+  Lemma serveX_sim c h1 h2 now r0 : R h1 h2 ->
+    sim3 (serveX S1 compute1 cache_on ims_on fix_vary fix_ovkey fix_svary fix_qmkey fix_ims sfilter parse_ims sanitize_ok prime override
+                 negotiate vary_tuple vary_header (c, h1) now r0)
+         (serveX S2 compute2 cache_on ims_on fix_vary fix_ovkey fix_svary fix_qmkey fix_ims sfilter parse_ims sanitize_ok prime override
+                 negotiate vary_tuple vary_header (c, h2) now r0).
+  Proof.
+    intros HR. unfold serveX.
+    destruct (negb cache_on).
+    { destruct (Hsim h1 h2 (prime r0) (override r0) (sanitize_ok r0) HR) as (E1 & E2 & E3).
+      destruct (compute1 h1 (prime r0) (override r0) (sanitize_ok r0)) as [[x1 h1'] lg1].
+      destruct (compute2 h2 (prime r0) (override r0) (sanitize_ok r0)) as [[x2 h2'] lg2].
+      cbn [fst snd] in *. subst x2 lg2. unfold sim3; cbn [fst snd]; auto. }
+    destruct (xlookup (lookup_req (prime r0) (override r0)) c now) as [[k found] c1].
+    destruct found as [e|]; [|apply missX_sim, HR].
+    destruct (sanitize_ok r0 && get_or_head (rq_method (prime r0))); [|apply missX_sim, HR].
+    match goal with |- sim3 (if ?b then _ else _) _ => destruct b; [unfold sim3; cbn [fst snd]; auto|] end.
+    destruct (xv_find _ _); [unfold sim3; cbn [fst snd]; auto | apply vary_missingX_sim, HR].
+  Qed.
+  Lemma runX_sim ops : forall c h1 h2 now, R h1 h2 ->
+    runX S1 compute1 cache_on ims_on fix_vary fix_ovkey fix_clear fix_svary fix_qmkey fix_ims sfilter parse_ims sanitize_ok prime
+         override negotiate vary_tuple vary_header clear_alias (c, h1) now ops =
+    runX S2 compute2 cache_on ims_on fix_vary fix_ovkey fix_clear fix_svary fix_qmkey fix_ims sfilter parse_ims sanitize_ok prime
+         override negotiate vary_tuple vary_header clear_alias (c, h2) now ops.
+  Proof.
+    induction ops as [|o ops IH]; intros c h1 h2 now HR; cbn [runX]; [reflexivity|].
+    destruct o as [r|r| |ms]; cbn [stepX].
+    - pose proof (serveX_sim c h1 h2 now r HR) as (Ec & Er & El & HR').
+      destruct (serveX S1 _ _ _ _ _ _ _ _ _ _ _ _ _ _ _ _ (c, h1) now r) as [[[c1' h1'] rp1] lg1].
+      destruct (serveX S2 _ _ _ _ _ _ _ _ _ _ _ _ _ _ _ _ (c, h2) now r) as [[[c2' h2'] rp2] lg2].
+      cbn [fst snd] in *. subst c2' rp2 lg2. f_equal. apply IH, HR'.
+    - f_equal. apply IH, HR.
+    - f_equal. apply IH, HR.
+    - f_equal. apply IH, HR.
+  Qed.
+End RunSim.
+
+(** [file_cache_transparent]: for every initial content of the file cache (also stale and negative entries), file
+    cache on or off, and whatever reads fill it, every history is observed exactly as on the server without file
+    cache whose files are what the server HOLDS for each path: the cache entry if there is one, else the disk. *)
+Lemma file_cache_transparent_lemma :
+  forall fix_ext fix_lock fix_errline cors on disk reads fc0
+         cache_on ims_on fix_ovkey fix_clear fix_svary fix_qmkey fix_ims sfilter parse_ims prime override refuses
+         vary_tuple vary_header clear_alias c now ops,
+    let held := fc_view on disk fc0 in
+    run_gf fix_ext fix_lock fix_errline cors on disk reads fc0 cache_on ims_on fix_ovkey fix_clear fix_svary fix_qmkey fix_ims
+           sfilter parse_ims prime override refuses vary_tuple vary_header clear_alias c now ops =
+    run_g fix_ext fix_lock fix_errline cors (fs_of held) (errpage_of held) (tmpl_of held) cache_on ims_on fix_ovkey fix_clear
+          fix_svary fix_qmkey fix_ims sfilter parse_ims prime override refuses vary_tuple vary_header clear_alias c now ops.
+Proof.
+  intros. unfold run_gf, run_g.
+  apply (runX_sim fcache unit _ _ (fun fc _ => forall q, fc_view on disk fc q = held q)); [|intros q; reflexivity].
+  intros fc [] r ov ok HR. unfold compute_gf, compute_g. cbn [fst snd]. split; [|split; [reflexivity|]].
+  - f_equal. apply layer_b_ext.
+    + intros t. unfold fs_of. apply HR.
+    + intros code. unfold errpage_of. rewrite HR. reflexivity.
+    + intros a b. apply tmpl_of_ext. exact HR.
+  - intros q. rewrite fc_fill_view. apply HR.
+Qed.
+
+(** the property with the file cache in the picture: "content of a file" is the content the server holds for it *)
+Lemma guarded_content_confined_fcache_lemma :
+  forall (fix_errline cors on : bool) (disk : bytes -> option bytes) reads (fc0 : fcache) (secret : bytes),
+    let held := fc_view on disk fc0 in
+    (forall t c, fs_of held t = Some c -> contains_sub secret c = true -> guarded t c = true) ->
+    (forall s, contains_sub secret (errpage_of held s) = false) ->
+    (forall args b, contains_sub secret (tmpl_of held args b) = true -> contains_sub secret b = true) ->
+    (cors = true -> contains_sub secret (ps_body cors_pst) = false) ->
+  forall cache_on ims_on fix_ovkey fix_clear fix_svary fix_qmkey fix_ims sfilter parse_ims prime override refuses
+         vary_tuple vary_header clear_alias now ops,
+    Forall2 (reply_ok (fs_of held) secret prime) ops
+      (run_gf true true fix_errline cors on disk reads fc0 cache_on ims_on fix_ovkey fix_clear fix_svary fix_qmkey fix_ims
+              sfilter parse_ims prime override refuses vary_tuple vary_header clear_alias [] now ops).
+Proof.
+  intros. rewrite file_cache_transparent_lemma. apply guarded_content_confined_lemma; assumption.
+Qed.
+
+(** ---------------------------------------------------------------------------
+    The file that is read is named by decoding the request path exactly once ... *)
+Lemma single_decode_only_lemma p t :
+  served_file p = Ok (Some t) -> PathSan.percent_decode p = 47 :: t.
+Proof.
+  unfold served_file, PathSan.decoded_for_use.
+  destruct (PathSan.utf8_valid (PathSan.percent_decode p)); [|discriminate].
+  unfold PathSan.parse_uri. destruct (PathSan.percent_decode p) as [|c r]; [discriminate|].
+  destruct (c =? PathSan.c_slash) eqn:E; [|discriminate].
+  intros H; inversion H; subst. apply N.eqb_eq in E. rewrite E. reflexivity.
+Qed.
+
+(** ... and an [allow-ips] argument lists exactly the address it parses to: the client's own address, as kvarn's
+    accept loop hands it over - no header is consulted, an IPv4 address equals no IPv6 address. *)
+Lemma quad_eqb_eq x y : quad_eqb x y = true <-> x = y.
+Proof.
+  destruct x as [[[a b] c] d], y as [[[a' b'] c'] d']. unfold quad_eqb. rewrite !andb_true_iff, !N.eqb_eq.
+  split; [intros [[[-> ->] ->] ->]; reflexivity | intros H; inversion H; auto].
+Qed.
+Lemma groups_eqb_eq a c : groups_eqb a c = true <-> a = c.
+Proof.
+  revert c; induction a as [|x a IH]; intros [|y c]; cbn [groups_eqb]; try (split; [discriminate|discriminate]); [tauto|].
+  rewrite andb_true_iff, N.eqb_eq, IH. split; [intros [-> ->]; reflexivity | intros H; inversion H; auto].
+Qed.
+Lemma ip_eqb_eq a c : ip_eqb a c = true <-> a = c.
+Proof.
+  destruct a as [x|x], c as [y|y]; cbn [ip_eqb]; try (split; discriminate).
+  - rewrite quad_eqb_eq. split; [intros ->; reflexivity | intros H; inversion H; reflexivity].
+  - rewrite groups_eqb_eq. split; [intros ->; reflexivity | intros H; inversion H; reflexivity].
+Qed.
+Lemma listed_is_exact_lemma addr arg : arg_matches addr arg = true <-> parse_ip arg = Some (ip_of_addr addr).
+Proof.
+  unfold arg_matches. destruct (parse_ip arg) as [a|]; [|split; discriminate].
+  rewrite ip_eqb_eq. split; [intros ->; reflexivity | intros H; inversion H; reflexivity].
+Qed.
+Lemma address_families_disjoint_lemma addr arg :
+  arg_matches addr arg = true ->
+  match parse_ip arg with
+  | Some (IPv4 _) => addr < V6_BASE
+  | Some (IPv6 _) => V6_BASE <= addr
+  | None => False
+  end.
+Proof.
+  intros H. apply listed_is_exact_lemma in H. rewrite H. unfold ip_of_addr.
+  destruct (addr <? V4_BASE) eqn:E1; [apply N.ltb_lt in E1; unfold V4_BASE, V6_BASE in *; lia|].
+  destruct (addr <? V6_BASE) eqn:E2; [apply N.ltb_lt in E2; exact E2 | apply N.ltb_ge in E2; exact E2].
+Qed.
+
+(** Range is applied to the reply of [handle_cache] afterwards ([SendKind::send]): whatever byte range of whatever
+    reply of a history is sent, it contains the secret only for a permitted request *)
+Definition ranged_ok (fs : bytes -> option bytes) (secret : bytes) (prime : request -> request) (o : opx) (ob : obsx) : Prop :=
+  match o, ob with
+  | XReq r, XbReply rp _ => forall lo hi, contains_sub secret (slice lo hi (rx_body rp)) = true -> permitted fs (prime r)
+  | _, _ => True
+  end.
+Lemma ranged_reply_confined_lemma :
+  forall (fix_errline cors : bool) (fs : bytes -> option bytes) (errpage : N -> bytes)
+         (tmpl : list bytes -> bytes -> bytes) (secret : bytes),
+    (forall t c, fs t = Some c -> contains_sub secret c = true -> guarded t c = true) ->
+    (forall s, contains_sub secret (errpage s) = false) ->
+    (forall args b, contains_sub secret (tmpl args b) = true -> contains_sub secret b = true) ->
+    (cors = true -> contains_sub secret (ps_body cors_pst) = false) ->
+  forall cache_on ims_on fix_ovkey fix_clear fix_svary fix_qmkey fix_ims sfilter parse_ims prime override refuses
+         vary_tuple vary_header clear_alias now ops,
+    Forall2 (ranged_ok fs secret prime) ops
+      (run_g true true fix_errline cors fs errpage tmpl cache_on ims_on fix_ovkey fix_clear fix_svary fix_qmkey fix_ims
+             sfilter parse_ims prime override refuses vary_tuple vary_header clear_alias [] now ops).
+Proof.
+  intros fix_errline cors fs errpage tmpl secret H1 H2 H3 H4. intros.
+  eapply Forall2_mono; [|apply (guarded_content_confined_lemma fix_errline cors fs errpage tmpl secret H1 H2 H3 H4)].
+  intros o ob Ho. destruct o as [r|r| |ms], ob as [rp lg| |]; cbn [reply_ok ranged_ok] in *; auto.
+  intros lo hi Hs. apply Ho. unfold leaks. apply contains_sub_slice in Hs. rewrite Hs. reflexivity.
+Qed.
